@@ -2,21 +2,22 @@
 
     Contents
       A  bit arithmetic: [getIndex] = base-2^b digit, [getLevelMask] = rounding down ([hi])
-      B  sorted association lists under a monotone change of keys
-      C  SparseArray refines a finite map (generic in the class of indices, [sa_good]):
+      B  sorted association lists under a monotone change of keys; positions
+      C  SparseArray refines a finite map, generically in the class of indices ([sa_good]):
          [rep_locate]/[rep_update], [rep_get_any], [find_any]
-      D  the SparseArray iterator walks the map in index order: [next_spec], [begin_spec], [iter_spec]
-      E  the classes of indices that occur in a Trie satisfy [sa_good]:
-         repaired header - all int32 keys; unchanged header - keys of one sign
-      F,G words/bits and SparseBitMap
-      H,I Trie<Dim>: [insert_spec], [contains_spec], [iter_trie_spec], [size_spec], [content_sorted],
-         [run_refines]
-      J  the two instantiations: [fixed_refines_set] (no hypothesis), [asis_refines_set] (one sign per column)
+      D  its iterator walks the map in index order: [next_spec], [begin_spec], [iter_spec], [its_spec]
+      E  the index classes of a Trie satisfy [sa_good]: repaired header - all int32 keys
+         ([sa_good_fixed6/4]); unchanged header - keys of one sign ([sa_good_asis6/4])
+      F,G words/bits, SparseBitMap, canonical bitmap iterator states
+      H  keys/indices, order facts about [tuple_ltb]
+      I  Trie<Dim>: [insert_spec], [contains_spec], [iter_trie_spec], [size_spec], [content_sorted],
+         canonical cores ([inc_canon]), [prefix_spec] (getBoundaries), [partition_spec], [run_refines]
+      J  the two instantiations: [fixed_refines_set] (no hypothesis on the keys),
+         [asis_refines_set] (one sign per column)
       K  [digits_roundtrip], [digits_inj]
-      L  the defect: [trie_mixed_sign_refuted], [asis_refines_set_refuted], [trie2_mixed_sign_shift_undefined]
-      M  prefix ranges: bounded exhaustive checks
-    The repair (Brie.h) is described at [gi]/[getIndex_fx] in BrieDefs.v and in the NOT PROVED block's
-    neighbour comment at the end of this file. *)
+      L  the defect: [trie_mixed_sign_refuted], [asis_refines_set_refuted],
+         [trie2_mixed_sign_shift_undefined]
+      M  [asis_defect_condition_bounded]; examples; the repair; NOT PROVED *)
 From SV Require Import BrieDefs.
 Require Import Lia ZifyBool ZifyNat ZifyN Sorted.
 Local Open Scope N_scope.
@@ -1026,6 +1027,27 @@ Section SARefine.
     rewrite <- (map_id M) at 2. apply map_ext_in. intros [i v] Hin. cbn [fst snd]. f_equal.
     destruct (rep_dom _ _ R i (in_map fst _ _ Hin)) as [_ <-]. symmetry. apply posof_split.
   Qed.
+
+  Lemma its_loop_spec (s : sa V) M1 : forall M2 fuel, sa_rep s (M1 ++ M2) -> (length M2 < fuel)%nat ->
+    sa_its_loop fx m b s fuel (it_hd (sa_levels s) M2) =
+      Some (map (fun e => (posof b (sa_levels s) (fst e) / 2 ^ b, fst e, snd e)) M2).
+  Proof.
+    intros M2. revert M1. induction M2 as [|[i v] M2 IH]; intros M1 fuel R Hf.
+    - destruct fuel; reflexivity.
+    - destruct fuel as [|f]; [cbn in Hf; lia|]. cbn [it_hd it_at sa_its_loop fst snd map].
+      rewrite (next_spec s M1 i v M2 R).
+      rewrite (IH (M1 ++ [(i, v)]) f); [reflexivity| |cbn in Hf; lia].
+      rewrite <- app_assoc. exact R.
+  Qed.
+
+  (** the iterators of a full iteration *)
+  Lemma its_spec (s : sa V) M : sa_rep s M ->
+    sa_its fx m b s = Some (map (fun e => (posof b (sa_levels s) (fst e) / 2 ^ b, fst e, snd e)) M).
+  Proof.
+    intros R. unfold sa_its. rewrite (begin_spec s M R).
+    apply (its_loop_spec s [] M); [exact R|].
+    rewrite (rep_cells _ _ R). unfold map_keys. rewrite map_length. lia.
+  Qed.
 End SARefine.
 
 (** ** Part E: the classes of indices of the Trie instantiate [sa_good] *)
@@ -1318,6 +1340,58 @@ Proof.
   - rewrite andb_false_r. destruct (N.testbit x p); [rewrite N.pow2_bits_false by exact Hne; reflexivity|rewrite N.bits_0; reflexivity].
 Qed.
 
+(** ** general facts about strongly sorted lists *)
+Lemma SS_unique {A} (R : A -> A -> Prop) (Hirr : forall x, ~ R x x) (Hasym : forall x y, R x y -> R y x -> False) :
+  forall l1 l2, StronglySorted R l1 -> StronglySorted R l2 -> (forall x, In x l1 <-> In x l2) -> l1 = l2.
+Proof.
+  induction l1 as [|a l1 IH]; intros [|c l2] H1 H2 H.
+  - reflexivity.
+  - exfalso. apply (H c). left; reflexivity.
+  - exfalso. apply (H a). left; reflexivity.
+  - inversion H1 as [|? ? H1' HF1]; subst. inversion H2 as [|? ? H2' HF2]; subst.
+    rewrite Forall_forall in HF1, HF2.
+    assert (E : a = c).
+    { destruct (proj1 (H a) ltac:(left; reflexivity)) as [->|Ha]; [reflexivity|].
+      destruct (proj2 (H c) ltac:(left; reflexivity)) as [->|Hc]; [reflexivity|].
+      exfalso. apply (Hasym a c); [apply HF1, Hc|apply HF2, Ha]. }
+    subst c. f_equal. apply IH; auto. intro x. split; intro Hx.
+    + destruct (proj1 (H x) ltac:(right; exact Hx)) as [->|Hx']; [|exact Hx'].
+      exfalso. apply (Hirr x), HF1, Hx.
+    + destruct (proj2 (H x) ltac:(right; exact Hx)) as [->|Hx']; [|exact Hx'].
+      exfalso. apply (Hirr x), HF2, Hx.
+Qed.
+
+
+Lemma SS_app {A} (R : A -> A -> Prop) l1 l2 : StronglySorted R l1 -> StronglySorted R l2 ->
+  (forall x y, In x l1 -> In y l2 -> R x y) -> StronglySorted R (l1 ++ l2).
+Proof.
+  induction l1 as [|a l1 IH]; intros H1 H2 H; [exact H2|]. inversion H1 as [|? ? H1' HF]; subst.
+  cbn [app]. constructor.
+  - apply IH; auto. intros x y Hx Hy. apply H; [right; exact Hx|exact Hy].
+  - apply Forall_forall. intros y Hy. apply in_app_or in Hy. destruct Hy as [Hy|Hy].
+    + rewrite Forall_forall in HF. apply HF, Hy.
+    + apply H; [left; reflexivity|exact Hy].
+Qed.
+
+Lemma SS_map {A B} (R : A -> A -> Prop) (R' : B -> B -> Prop) (f : A -> B) l :
+  StronglySorted R l -> (forall x y, In x l -> In y l -> R x y -> R' (f x) (f y)) -> StronglySorted R' (map f l).
+Proof.
+  induction l as [|a l IH]; intros HS H; [constructor|]. inversion HS as [|? ? HS' HF]; subst. cbn [map]. constructor.
+  - apply IH; [exact HS'|]. intros x y Hx Hy. apply H; right; assumption.
+  - apply Forall_forall. intros y Hy. apply in_map_iff in Hy. destruct Hy as (x & <- & Hx).
+    rewrite Forall_forall in HF. apply H; [left; reflexivity|right; exact Hx|apply HF, Hx].
+Qed.
+
+
+Lemma ldiff_lt_pow2 a c n : a < 2 ^ n -> N.ldiff a c < 2 ^ n.
+Proof.
+  intros Ha. destruct (N.eq_dec (N.ldiff a c) 0) as [->|Hne]; [apply pow2_pos|].
+  apply N.log2_lt_pow2; [lia|]. destruct (N.lt_ge_cases (N.log2 (N.ldiff a c)) n) as [|Hge]; [assumption|exfalso].
+  pose proof (N.bit_log2 _ Hne) as Hb. rewrite N.ldiff_spec in Hb.
+  rewrite (lt_pow2_bits a n Ha _ Hge) in Hb. discriminate.
+Qed.
+
+
 Lemma lor_lt_pow2 a c n : a < 2 ^ n -> c < 2 ^ n -> N.lor a c < 2 ^ n.
 Proof.
   intros Ha Hc.
@@ -1389,6 +1463,46 @@ Proof.
   unfold bits_of. induction M as [|e M IH]; [reflexivity|]. cbn [fold_right flat_map].
   rewrite app_length, map_length, IH. rewrite Nat2N.inj_add, bits_list_length. reflexivity.
 Qed.
+
+
+(** facts about the lists of set bits *)
+Lemma bits_list_inj a c : bits_list a = bits_list c -> a = c.
+Proof.
+  intros H. apply N.bits_inj. intro q. apply eq_true_iff_eq. rewrite <- !bits_list_In, H. reflexivity.
+Qed.
+
+Lemma SS_lt_unique (l1 l2 : list N) : StronglySorted N.lt l1 -> StronglySorted N.lt l2 ->
+  (forall x, In x l1 <-> In x l2) -> l1 = l2.
+Proof. apply (SS_unique N.lt); intros; lia. Qed.
+
+Lemma SS_app_inv {A} (R : A -> A -> Prop) l1 l2 : StronglySorted R (l1 ++ l2) ->
+  StronglySorted R l1 /\ StronglySorted R l2 /\ (forall x y, In x l1 -> In y l2 -> R x y).
+Proof.
+  induction l1 as [|a l1 IH]; cbn [app]; intros H.
+  - split; [constructor|]. split; [exact H|]. intros x y [].
+  - inversion H as [|? ? H' HF]; subst. destruct (IH H') as (H1 & H2 & H3). rewrite Forall_forall in HF.
+    split; [constructor; [exact H1|]; apply Forall_forall; intros y Hy; apply HF, in_or_app; left; exact Hy|].
+    split; [exact H2|]. intros x y [<-|Hx] Hy; [apply HF, in_or_app; right; exact Hy|apply H3; assumption].
+Qed.
+
+(** the bits above position p *)
+Lemma bits_list_above x B1 p B2 : bits_list x = B1 ++ p :: B2 ->
+  bits_list (N.ldiff x (N.ones (p + 1))) = B2.
+Proof.
+  intros H. pose proof (bits_list_sorted x) as HS. rewrite H in HS.
+  apply SS_app_inv in HS as (HS1 & HS2 & H12). inversion HS2 as [|? ? HS2' HF2]; subst.
+  apply SS_lt_unique; [apply bits_list_sorted|exact HS2'|].
+  intro q. rewrite bits_list_In, N.ldiff_spec. rewrite Forall_forall in HF2.
+  assert (Hq : N.testbit x q = true <-> In q (B1 ++ p :: B2)) by (rewrite <- H; symmetry; apply bits_list_In).
+  destruct (N.lt_ge_cases q (p + 1)) as [Hlt|Hge].
+  - rewrite N.ones_spec_low by exact Hlt. rewrite andb_false_r. split; [discriminate|].
+    intros Hin. specialize (HF2 q Hin). lia.
+  - rewrite N.ones_spec_high by exact Hge. rewrite andb_true_r. rewrite Hq. split.
+    + intros Hin. apply in_app_or in Hin. destruct Hin as [Hin|[->|Hin]]; [|lia|exact Hin].
+      specialize (H12 q p Hin ltac:(left; reflexivity)). lia.
+    + intros Hin. apply in_or_app. right; right; exact Hin.
+Qed.
+
 
 Section BMRefine.
   Variable fx : bool.
@@ -1502,6 +1616,132 @@ Section BMRefine.
   Lemma bm_size_spec (t : sa N) M : rep4 t M -> bm_size fx m t = Some (N.of_nat (length (bits_of M))).
   Proof.
     intros R. unfold bm_size. rewrite (iter_spec fx m BM_BITS D4 Q4x L4 G4 t M R). f_equal. apply popcount_sum.
+  Qed.
+
+  (** *** canonical iterator states: the state in which the iterator shows a given bit *)
+  Definition bm_canon (L : nat) (e : N * N) (p : N) : bmit :=
+    bm_st L e (N.ldiff (snd e) (N.ones (p + 1))) p.
+
+  Lemma bm_first_canon L e : snd e <> 0 -> bm_first L e = bm_canon L e (ctz (snd e)).
+  Proof.
+    intros Hx. unfold bm_first, bm_canon. f_equal. apply bits_list_inj.
+    pose proof (bits_list_ctz (snd e) Hx) as Hc. rewrite (bits_list_above (snd e) [] (ctz (snd e)) _ Hc).
+    reflexivity.
+  Qed.
+
+  Lemma bm_next_canon (t : sa N) M1 e M2 B1 p B2 : rep4 t (M1 ++ e :: M2) -> wf_words (M1 ++ e :: M2) ->
+    bits_list (snd e) = B1 ++ p :: B2 ->
+    bm_next fx m t (bm_canon (sa_levels t) e p) =
+      Some (match B2 with
+            | p' :: _ => bm_canon (sa_levels t) e p'
+            | [] => match M2 with
+                    | [] => (None, 0, fst e * 64 + p)
+                    | e' :: _ => bm_canon (sa_levels t) e' (ctz (snd e')) end
+            end).
+  Proof.
+    intros R Hwf HB. pose proof (bits_list_above _ _ _ _ HB) as Hab.
+    assert (Hin : In e (M1 ++ e :: M2)) by (apply in_or_app; right; left; reflexivity).
+    pose proof Hwf as Hwf'. unfold wf_words in Hwf'. rewrite Forall_forall in Hwf'. destruct (Hwf' e Hin) as [Hx1 Hx2].
+    assert (Hp : p < 64).
+    { apply (bits_list_lt64 (snd e) p Hx2). rewrite HB. apply in_or_app. right; left; reflexivity. }
+    unfold bm_canon at 1. destruct B2 as [|p' B2'].
+    - apply bits_list_nil in Hab. rewrite Hab.
+      rewrite (bm_next_word_end t M1 e M2 p R Hwf). destruct M2 as [|e' M2']; [reflexivity|].
+      f_equal. apply bm_first_canon.
+      assert (Hin' : In e' (M1 ++ e :: e' :: M2')) by (apply in_or_app; right; right; left; reflexivity).
+      apply (Hwf' e' Hin').
+    - destruct (bm_next_in_word t (sa_levels t) e _ p p' B2' Hab (ldiff_lt_pow2 _ _ _ Hx2) Hp) as (En & HB' & Hp').
+      rewrite En. f_equal. unfold bm_canon. f_equal. apply bits_list_inj. rewrite HB'.
+      symmetry. apply (bits_list_above (snd e) (B1 ++ [p]) p' B2'). rewrite <- app_assoc. exact HB.
+  Qed.
+
+  (** [find(i)] *)
+  Lemma bm_find_spec (t : sa N) M i : rep4 t M -> Q4x (i / 64) ->
+    bm_find fx m t i =
+      Some (if bm_mem M i
+            then (it_at BM_BITS (sa_levels t) (i / 64, word_at M (i / 64)),
+                  N.land (word_at M (i / 64)) (2 ^ (i mod 64) - 1), i)
+            else bmit_end).
+  Proof.
+    intros R Qi. unfold bm_find. rewrite shiftr6, land63, shiftl1.
+    rewrite (find_any fx m BM_BITS D4 Q4x L4 G4 t M (i / 64) R Qi). unfold bm_mem, word_at.
+    destruct (cells_get (i / 64) M) as [w|]; [|rewrite N.bits_0; reflexivity].
+    cbn [it_at fst snd]. rewrite land_pow2. destruct (N.testbit w (i mod 64)); [|rewrite N.eqb_refl; reflexivity].
+    replace (2 ^ (i mod 64) =? 0) with false by (pose proof (pow2_pos (i mod 64)); lia). reflexivity.
+  Qed.
+
+  (** [++] of an iterator that sits on word (w0, w) with any remaining mask: it is defined, the
+      result differs from the iterator, and it is the end iterator iff its store iterator is *)
+  Lemma bm_next_found (t : sa N) M1 w0 w M2 mask v : rep4 t (M1 ++ (w0, w) :: M2) ->
+    exists nx, bm_next fx m t (it_at BM_BITS (sa_levels t) (w0, w), mask, v) = Some nx /\
+      bmit_eqb (it_at BM_BITS (sa_levels t) (w0, w), mask, v) nx = false /\
+      bmit_eqb nx bmit_end = match fst (fst nx) with None => true | Some _ => false end.
+  Proof.
+    intros R. unfold bm_next. destruct (N.eq_dec mask 0) as [->|Em].
+    - replace (bm_move 0 v) with (@None (N * N)) by reflexivity. unfold it_at at 1. cbn [fst snd].
+      rewrite (next_spec fx m BM_BITS D4 Q4x L4 G4 t M1 w0 w M2 R).
+      destruct M2 as [|[w' x'] M2']; cbn [it_hd].
+      + eexists. split; [reflexivity|]. split; reflexivity.
+      + assert (Hlt : w0 < w').
+        { pose proof (split_keys_facts M1 ((w', x') :: M2') w0 w (rep_sorted _ _ _ _ _ R)) as [_ H2].
+          apply (H2 (w', x')). left; reflexivity. }
+        unfold it_at at 1. cbn [fst snd].
+        destruct (bm_move x' (shl64 w' 6)) as [[mk v']|]; eexists; (split; [reflexivity|]);
+          (split; [|reflexivity]); unfold bmit_eqb, it_at; cbn [fst snd sait_eqb];
+          replace (w0 =? w') with false by lia; rewrite andb_false_r; reflexivity.
+    - rewrite (bm_move_spec mask v Em). eexists. split; [reflexivity|]. split; [|reflexivity].
+      unfold bmit_eqb, it_at. cbn [fst snd sait_eqb]. rewrite !N.eqb_refl. cbn [andb].
+      apply N.eqb_neq. intro E. apply (f_equal (fun z => N.testbit z (ctz mask))) in E.
+      assert (Hb : N.testbit mask (ctz mask) = true).
+      { apply bits_list_In. rewrite (bits_list_ctz mask Em). left; reflexivity. }
+      rewrite N.ldiff_spec, Hb, N.pow2_bits_true in E. discriminate.
+  Qed.
+
+  (** all iterator states of a full iteration over the bits, from a canonical state on *)
+  Definition word_canons (L : nat) (e : N * N) (B : list N) : list bmit := map (bm_canon L e) B.
+  Definition bm_canons (L : nat) (M : list (N * N)) : list bmit :=
+    flat_map (fun e => word_canons L e (bits_list (snd e))) M.
+
+  Lemma bm_canons_length L M : length (bm_canons L M) = length (bits_of M).
+  Proof.
+    unfold bm_canons, bits_of, word_canons. induction M as [|e M IH]; [reflexivity|]. cbn [flat_map].
+    rewrite !app_length, !map_length, IH. reflexivity.
+  Qed.
+
+  Lemma bm_its_loop_spec (t : sa N) : forall M2 M1 e B1 p B2 fuel,
+    rep4 t (M1 ++ e :: M2) -> wf_words (M1 ++ e :: M2) -> bits_list (snd e) = B1 ++ p :: B2 ->
+    (length (p :: B2) + length (bm_canons (sa_levels t) M2) <= fuel)%nat ->
+    bm_its_loop fx m t fuel (bm_canon (sa_levels t) e p) =
+      Some (word_canons (sa_levels t) e (p :: B2) ++ bm_canons (sa_levels t) M2).
+  Proof.
+    induction M2 as [|e' M2' IHM]; intros M1 e B1 p B2.
+    - revert B1 p. induction B2 as [|p' B2' IHB]; intros B1 p fuel R Hwf HB Hf.
+      + destruct fuel as [|f]; [cbn in Hf; lia|]. cbn [bm_its_loop bm_canon bm_st it_at fst snd].
+        fold (bm_canon (sa_levels t) e p).
+        rewrite (bm_next_canon t M1 e [] B1 p [] R Hwf HB). destruct f; reflexivity.
+      + destruct fuel as [|f]; [cbn in Hf; lia|]. cbn [bm_its_loop bm_canon bm_st it_at fst snd].
+        fold (bm_canon (sa_levels t) e p).
+        rewrite (bm_next_canon t M1 e [] B1 p (p' :: B2') R Hwf HB).
+        rewrite (IHB (B1 ++ [p]) p' f R Hwf); [reflexivity|rewrite <- app_assoc; exact HB|cbn in Hf |- *; lia].
+    - revert B1 p. induction B2 as [|p' B2' IHB]; intros B1 p fuel R Hwf HB Hf.
+      + destruct fuel as [|f]; [cbn in Hf; lia|]. cbn [bm_its_loop bm_canon bm_st it_at fst snd].
+        fold (bm_canon (sa_levels t) e p).
+        rewrite (bm_next_canon t M1 e (e' :: M2') B1 p [] R Hwf HB).
+        assert (Hin : In e' (M1 ++ e :: e' :: M2')) by (apply in_or_app; right; right; left; reflexivity).
+        pose proof Hwf as Hwf'. unfold wf_words in Hwf'. rewrite Forall_forall in Hwf'. destruct (Hwf' e' Hin) as [Hx1 _].
+        pose proof (bits_list_ctz (snd e') Hx1) as Hc.
+        rewrite (IHM (M1 ++ [e]) e' [] (ctz (snd e')) (bits_list (N.ldiff (snd e') (2 ^ ctz (snd e')))) f); [| | |exact Hc|].
+        * cbn [bm_canons flat_map word_canons map app]. rewrite Hc. reflexivity.
+        * rewrite <- app_assoc. exact R.
+        * rewrite <- app_assoc. exact Hwf.
+        * assert (Hlen : length (bm_canons (sa_levels t) (e' :: M2')) =
+                         (length (bits_list (snd e')) + length (bm_canons (sa_levels t) M2'))%nat).
+          { unfold bm_canons at 1. cbn [flat_map]. unfold word_canons. rewrite app_length, map_length. reflexivity. }
+          rewrite Hlen in Hf. rewrite Hc in Hf at 1. cbn [length] in Hf |- *. lia.
+      + destruct fuel as [|f]; [cbn in Hf; lia|]. cbn [bm_its_loop bm_canon bm_st it_at fst snd].
+        fold (bm_canon (sa_levels t) e p).
+        rewrite (bm_next_canon t M1 e (e' :: M2') B1 p (p' :: B2') R Hwf HB).
+        rewrite (IHB (B1 ++ [p]) p' f R Hwf); [reflexivity|rewrite <- app_assoc; exact HB|cbn in Hf |- *; lia].
   Qed.
 End BMRefine.
 
@@ -1649,26 +1889,6 @@ Proof.
     + apply idx_of_key_inj in E; auto. subst. rewrite Z.eqb_refl, N.ltb_irrefl, N.eqb_refl. cbn [andb].
       apply (IH a c); assumption.
     + intros _ _. replace (idx_of_key y <? idx_of_key x) with true by lia. reflexivity.
-Qed.
-
-Lemma SS_unique {A} (R : A -> A -> Prop) (Hirr : forall x, ~ R x x) (Hasym : forall x y, R x y -> R y x -> False) :
-  forall l1 l2, StronglySorted R l1 -> StronglySorted R l2 -> (forall x, In x l1 <-> In x l2) -> l1 = l2.
-Proof.
-  induction l1 as [|a l1 IH]; intros [|c l2] H1 H2 H.
-  - reflexivity.
-  - exfalso. apply (H c). left; reflexivity.
-  - exfalso. apply (H a). left; reflexivity.
-  - inversion H1 as [|? ? H1' HF1]; subst. inversion H2 as [|? ? H2' HF2]; subst.
-    rewrite Forall_forall in HF1, HF2.
-    assert (E : a = c).
-    { destruct (proj1 (H a) ltac:(left; reflexivity)) as [->|Ha]; [reflexivity|].
-      destruct (proj2 (H c) ltac:(left; reflexivity)) as [->|Hc]; [reflexivity|].
-      exfalso. apply (Hasym a c); [apply HF1, Hc|apply HF2, Ha]. }
-    subst c. f_equal. apply IH; auto. intro x. split; intro Hx.
-    + destruct (proj1 (H x) ltac:(right; exact Hx)) as [->|Hx']; [|exact Hx'].
-      exfalso. apply (Hirr x), HF1, Hx.
-    + destruct (proj2 (H x) ltac:(right; exact Hx)) as [->|Hx']; [|exact Hx'].
-      exfalso. apply (Hirr x), HF2, Hx.
 Qed.
 
 Lemma set_insert_In t s x : In x (set_insert t s) <-> x = t \/ In x s.
@@ -1893,14 +2113,6 @@ Section TrieRefine.
     - destruct Hr as (c' & E & Hs'). rewrite E. rewrite (IH y c' f Hs') by (cbn in Hf |- *; lia). reflexivity.
   Qed.
 
-  Lemma ldiff_lt_pow2 a c n : a < 2 ^ n -> N.ldiff a c < 2 ^ n.
-  Proof.
-    intros Ha. destruct (N.eq_dec (N.ldiff a c) 0) as [->|Hne]; [apply pow2_pos|].
-    apply N.log2_lt_pow2; [lia|]. destruct (N.lt_ge_cases (N.log2 (N.ldiff a c)) n) as [|Hge]; [assumption|exfalso].
-    pose proof (N.bit_log2 _ Hne) as Hb. rewrite N.ldiff_spec in Hb.
-    rewrite (lt_pow2_bits a n Ha _ Hge) in Hb. discriminate.
-  Qed.
-
   Notation f0 := (fun i : N => [key_of_idx i]).
 
   (** the bitmap level *)
@@ -2106,26 +2318,6 @@ Section TrieRefine.
     - intros (H1 & _ & H3). split; [exact H1|apply IH, H3].
   Qed.
 
-  Lemma SS_app {A} (R : A -> A -> Prop) l1 l2 : StronglySorted R l1 -> StronglySorted R l2 ->
-    (forall x y, In x l1 -> In y l2 -> R x y) -> StronglySorted R (l1 ++ l2).
-  Proof.
-    induction l1 as [|a l1 IH]; intros H1 H2 H; [exact H2|]. inversion H1 as [|? ? H1' HF]; subst.
-    cbn [app]. constructor.
-    - apply IH; auto. intros x y Hx Hy. apply H; [right; exact Hx|exact Hy].
-    - apply Forall_forall. intros y Hy. apply in_app_or in Hy. destruct Hy as [Hy|Hy].
-      + rewrite Forall_forall in HF. apply HF, Hy.
-      + apply H; [left; reflexivity|exact Hy].
-  Qed.
-
-  Lemma SS_map {A B} (R : A -> A -> Prop) (R' : B -> B -> Prop) (f : A -> B) l :
-    StronglySorted R l -> (forall x y, In x l -> In y l -> R x y -> R' (f x) (f y)) -> StronglySorted R' (map f l).
-  Proof.
-    induction l as [|a l IH]; intros HS H; [constructor|]. inversion HS as [|? ? HS' HF]; subst. cbn [map]. constructor.
-    - apply IH; [exact HS'|]. intros x y Hx Hy. apply H; right; assumption.
-    - apply Forall_forall. intros y Hy. apply in_map_iff in Hy. destruct Hy as (x & <- & Hx).
-      rewrite Forall_forall in HF. apply H; [left; reflexivity|right; exact Hx|apply HF, Hx].
-  Qed.
-
   Lemma bits_of_sorted M : ksorted M -> wf_words M -> StronglySorted N.lt (bits_of M).
   Proof.
     unfold ksorted, bits_of. induction M as [|[w x] M IH]; intros HS Hwf; [constructor|].
@@ -2183,13 +2375,744 @@ Section TrieRefine.
       eapply Forall_impl; [|exact HF]. intros e [He _]. apply IH, He.
   Qed.
 
+  (** *** canonical cores: the iterator state that shows a given stored tuple *)
+  Fixpoint canon (d : nat) : trie d -> list Z -> core d :=
+    match d return trie d -> list Z -> core d with
+    | O => fun t x =>
+        match x with
+        | [k] => let i := idx_of_key k in
+                 bm_canon (sa_levels t) (i / 64, word_at (sa_entries t) (i / 64)) (i mod 64)
+        | _ => core_end 0
+        end
+    | S d' => fun t x =>
+        match x with
+        | k :: r => match cells_get (idx_of_key k) (sa_entries t) with
+                    | Some n => (it_at SA_BITS (sa_levels t) (idx_of_key k, n), canon d' n r)
+                    | None => core_end (S d')
+                    end
+        | [] => core_end (S d')
+        end
+    end.
+
+  Lemma canon_S_eq d' (t : trie (S d')) i n r : trie_ok (S d') t -> In (i, n) (sa_entries t) ->
+    canon (S d') t (key_of_idx i :: r) = (it_at SA_BITS (sa_levels t) (i, n), canon d' n r).
+  Proof.
+    intros Hok Hin. pose proof (ok_entries_Q6 d' t Hok i (in_map fst _ _ Hin)) as HQ. destruct Hok as [R _].
+    cbn [canon]. rewrite idx_of_key_of_idx by exact HQ.
+    rewrite (cells_get_sorted_In i n _ (rep_sorted _ _ _ _ _ R) Hin). reflexivity.
+  Qed.
+
+  Lemma canon_0_eq (t : trie 0) e p : trie_ok 0 t -> In e (sa_entries t) -> In p (bits_list (snd e)) ->
+    canon 0 t [key_of_idx (fst e * 64 + p)] = bm_canon (sa_levels t) e p.
+  Proof.
+    intros [R Hwf] Hin Hp. pose proof Hwf as Hwf'. unfold wf_words in Hwf'. rewrite Forall_forall in Hwf'.
+    destruct (Hwf' e Hin) as [_ Hx]. pose proof (bits_list_lt64 _ _ Hx Hp) as Hp64.
+    assert (HQ : Q6 (fst e * 64 + p)).
+    { apply Q4_Q6; [|exact Hp64]. apply HD4Q, (rep_dom _ _ _ _ _ R). apply in_map, Hin. }
+    cbn [canon]. rewrite idx_of_key_of_idx by exact HQ.
+    replace ((fst e * 64 + p) / 64) with (fst e) by (apply (N.div_unique _ 64 (fst e) p); lia).
+    replace ((fst e * 64 + p) mod 64) with p by (apply (N.mod_unique _ 64 (fst e) p); lia).
+    unfold word_at. destruct e as [w x]. cbn [fst snd] in *.
+    rewrite (cells_get_sorted_In w x _ (rep_sorted _ _ _ _ _ R) Hin). reflexivity.
+  Qed.
+
+  Lemma flat_map_split {A B} (f : A -> list B) l : forall pre x post, flat_map f l = pre ++ x :: post ->
+    exists l1 a l2 p1 p2, l = l1 ++ a :: l2 /\ f a = p1 ++ x :: p2 /\
+      pre = flat_map f l1 ++ p1 /\ post = p2 ++ flat_map f l2.
+  Proof.
+    induction l as [|a l IH]; intros pre x post H; [destruct pre; discriminate|].
+    cbn [flat_map] in H. apply app_eq_app in H. destruct H as (u & [[H1 H2]|[H1 H2]]).
+    - (* f a = pre ++ u, x :: post = u ++ rest *)
+      destruct u as [|u0 u].
+      + cbn [app] in H2. rewrite app_nil_r in H1. symmetry in H2.
+        destruct (IH [] x post H2) as (l1 & a' & l2 & p1 & p2 & -> & Hf & Hp & ->).
+        exists (a :: l1), a', l2, p1, p2. split; [reflexivity|]. split; [exact Hf|]. split; [|reflexivity].
+        cbn [flat_map]. rewrite <- H1. symmetry in Hp. apply app_eq_nil in Hp. destruct Hp as [-> ->]. rewrite !app_nil_r. reflexivity.
+      + injection H2 as <- ->. exists [], a, l, pre, u. cbn [app flat_map]. auto.
+    - (* pre = f a ++ u *)
+      destruct (IH u x post H2) as (l1 & a' & l2 & p1 & p2 & -> & Hf & -> & ->).
+      exists (a :: l1), a', l2, p1, p2. split; [reflexivity|]. split; [exact Hf|]. split; [|reflexivity].
+      cbn [flat_map]. rewrite H1, app_assoc. reflexivity.
+  Qed.
+
+  Lemma map_split {A B} (f : A -> B) l : forall pre y post, map f l = pre ++ y :: post ->
+    exists l1 a l2, l = l1 ++ a :: l2 /\ pre = map f l1 /\ y = f a /\ post = map f l2.
+  Proof.
+    intros pre y post H. apply map_eq_app in H. destruct H as (l1 & l' & -> & <- & H).
+    destruct l' as [|a l2]; [discriminate|]. injection H as <- <-.
+    exists l1, a, l2. auto.
+  Qed.
+
+  (** the iterator constructed for a non-empty store is the canonical one of the first tuple *)
+  Lemma first_canon d : forall (t : trie d) x rest, trie_ok d t -> content d t = x :: rest ->
+    iter_first fx m d t = Some (x, canon d t x).
+  Proof.
+    induction d as [|d' IH]; intros t x rest Hok Hc.
+    - pose proof Hok as [R Hwf]. cbn [iter_first content] in *.
+      rewrite (bm_begin_spec fx m D4 Q4 L4 G4 HD58 t _ R Hwf).
+      destruct (sa_entries t) as [|e M'] eqn:EM; [discriminate|].
+      inversion Hwf as [|? ? [Hx1 Hx2] _]; subst.
+      unfold bits_of in Hc. cbn [flat_map] in Hc. rewrite (bits_list_ctz _ Hx1) in Hc. cbn [map app] in Hc.
+      injection Hc as <- _. rewrite (bm_first_canon _ _ Hx1).
+      rewrite (canon_0_eq t e (ctz (snd e)) Hok); [reflexivity|rewrite EM; left; reflexivity|].
+      rewrite (bits_list_ctz _ Hx1). left; reflexivity.
+    - pose proof Hok as [R HF]. cbn [iter_first content] in *.
+      rewrite (begin_spec fx m SA_BITS (Dk (S d')) Q6 L6 (G6 d') t _ R).
+      destruct (sa_entries t) as [|[i0 n0] M'] eqn:EM; [discriminate|].
+      inversion HF as [|? ? [Hok0 Hne0] HF']; subst. cbn [fst snd flat_map] in *.
+      destruct (content d' n0) as [|y ys] eqn:Ec0; [congruence|]. cbn [map app] in Hc. injection Hc as <- _.
+      cbn [it_hd it_at fst snd]. rewrite (IH n0 y ys Hok0 Ec0). f_equal. f_equal.
+      symmetry. apply (canon_S_eq d' t i0 n0 y Hok). rewrite EM. left; reflexivity.
+  Qed.
+
+  (** [++] from the canonical state of a stored tuple leads to the canonical state of the next one *)
+  Lemma inc_canon d : forall (t : trie d) pre x post, trie_ok d t -> content d t = pre ++ x :: post ->
+    exists cfin, core_inc fx m d t x (canon d t x) =
+      Some (match post with y :: _ => (true, y, canon d t y) | [] => (false, x, cfin) end) /\
+      core_eqb d cfin (core_end d) = true.
+  Proof.
+    induction d as [|d' IH]; intros t pre x post Hok Hc.
+    - pose proof Hok as [R Hwf]. cbn [content] in Hc.
+      apply map_split in Hc. destruct Hc as (preN & i & postN & HcN & -> & -> & ->).
+      unfold bits_of in HcN. apply flat_map_split in HcN.
+      destruct HcN as (M1 & e & M2 & p1 & p2 & EM & Hfe & -> & ->).
+      apply map_split in Hfe. destruct Hfe as (B1 & p & B2 & HB & -> & -> & ->).
+      assert (Hin : In e (sa_entries t)) by (rewrite EM; apply in_or_app; right; left; reflexivity).
+      assert (Hp : In p (bits_list (snd e))) by (rewrite HB; apply in_or_app; right; left; reflexivity).
+      rewrite (canon_0_eq t e p Hok Hin Hp). cbn [core_inc].
+      rewrite EM in R, Hwf. rewrite (bm_next_canon fx m D4 Q4 L4 G4 HD58 t M1 e M2 B1 p B2 R Hwf HB).
+      destruct B2 as [|p' B2'].
+      + destruct M2 as [|e' M2'].
+        * exists (None, 0, fst e * 64 + p). cbn. split; reflexivity.
+        * exists bmit_end. split; [|reflexivity]. cbn [map app flat_map fst snd bm_canon bm_st it_at].
+          assert (Hin' : In e' (sa_entries t)) by (rewrite EM; apply in_or_app; right; right; left; reflexivity).
+          pose proof Hwf as Hwf'. unfold wf_words in Hwf'. rewrite Forall_forall in Hwf'.
+          destruct (Hwf' e' ltac:(apply in_or_app; right; right; left; reflexivity)) as [Hx1 _].
+          rewrite (bits_list_ctz _ Hx1). cbn [map app]. f_equal. f_equal.
+          symmetry. apply canon_0_eq; [exact Hok|exact Hin'|]. rewrite (bits_list_ctz _ Hx1). left; reflexivity.
+      + exists bmit_end. split; [|reflexivity]. cbn [map app fst snd bm_canon bm_st it_at]. f_equal. f_equal.
+        symmetry. apply canon_0_eq; [exact Hok|exact Hin|]. rewrite HB. apply in_or_app. right; right; left; reflexivity.
+    - pose proof Hok as [R HF]. cbn [content] in Hc. apply flat_map_split in Hc.
+      destruct Hc as (M1 & [i n] & M2 & p1 & p2 & EM & Hfe & -> & ->). cbn [fst snd] in Hfe.
+      apply map_split in Hfe. destruct Hfe as (pre_n & r & post_n & Hcn & -> & -> & ->).
+      assert (Hin : In (i, n) (sa_entries t)) by (rewrite EM; apply in_or_app; right; left; reflexivity).
+      rewrite Forall_forall in HF. destruct (HF _ Hin) as [Hokn _]. cbn [snd] in Hokn.
+      rewrite (canon_S_eq d' t i n r Hok Hin).
+      destruct (IH n pre_n r post_n Hokn Hcn) as (cfin_n & En & Hfin).
+      cbn [core_inc it_at fst snd tl hd]. rewrite En.
+      destruct post_n as [|y post_n'].
+      + rewrite EM in R. rewrite (next_spec fx m SA_BITS (Dk (S d')) Q6 L6 (G6 d') t M1 i n M2 R).
+        destruct M2 as [|[i' n'] M2'].
+        * exists (None, cfin_n). cbn [it_hd map app flat_map]. split; [reflexivity|].
+          cbn [core_eqb core_end fst snd sait_eqb]. rewrite Hfin. reflexivity.
+        * exists (core_end (S d')). split; [|apply core_eqb_end].
+          assert (Hin' : In (i', n') (sa_entries t)) by (rewrite EM; apply in_or_app; right; right; left; reflexivity).
+          destruct (HF _ Hin') as [Hokn' Hnen']. cbn [snd] in *.
+          destruct (content d' n') as [|y' ys'] eqn:Ec'; [congruence|].
+          cbn [it_hd it_at fst snd map app flat_map]. rewrite (first_canon d' n' y' ys' Hokn' Ec'). rewrite Ec'.
+          cbn [map app]. f_equal. f_equal. symmetry. apply (canon_S_eq d' t i' n' y' Hok Hin').
+      + exists (core_end (S d')). split; [|apply core_eqb_end]. cbn [map app]. f_equal. f_equal.
+        symmetry. apply (canon_S_eq d' t i n y Hok Hin).
+  Qed.
+
+  (** *** cores: equality test *)
+  Definition ended (d : nat) (c : core d) : Prop := core_eqb d c (core_end d) = true.
+
+  Lemma ended_at_end d (c : core d) : ended d c -> core_at_end d c = true.
+  Proof.
+    destruct d as [|d']; unfold ended; cbn [core_eqb core_end core_at_end]; [auto|].
+    intros H. apply andb_true_iff in H. apply H.
+  Qed.
+
+  Lemma sait_eqb_none_r {V} (a : sait V) : sait_eqb a None = true -> a = None.
+  Proof. destruct a as [[[? ?] ?]|]; [discriminate|reflexivity]. Qed.
+
+  Lemma ended_eqb d : forall c e : core d, ended d c -> ended d e -> core_eqb d c e = true.
+  Proof.
+    unfold ended. induction d as [|d' IH]; intros c e Hc He.
+    - cbn [core_eqb core_end] in *. destruct c as [[ic mc] vc]. destruct e as [[ie me] ve].
+      unfold bmit_eqb, bmit_end in *. apply andb_true_iff in Hc as [Hc1 Hc2]. apply andb_true_iff in He as [He1 He2].
+      apply sait_eqb_none_r in Hc1, He1. subst. apply N.eqb_eq in Hc2, He2. subst. reflexivity.
+    - cbn [core_eqb core_end fst snd] in *. apply andb_true_iff in Hc as [Hc1 Hc2]. apply andb_true_iff in He as [He1 He2].
+      apply sait_eqb_none_r in Hc2, He2. rewrite Hc2, He2, (IH _ _ Hc1 He1). reflexivity.
+  Qed.
+
+  Lemma core_eqb_refl d : forall c : core d, core_eqb d c c = true.
+  Proof.
+    induction d as [|d' IH]; intro c.
+    - destruct c as [[[[[q f] v]|] mk] vl]; cbn; rewrite ?N.eqb_refl; reflexivity.
+    - destruct c as [[[[q f] v]|] c']; cbn [core_eqb fst snd sait_eqb]; rewrite IH, ?N.eqb_refl; reflexivity.
+  Qed.
+
+  (** a canonical core differs from every core whose top-level iterator is at the end *)
+  Lemma canon_not_at_end d (t : trie d) x (e : core d) : trie_ok d t -> In x (content d t) ->
+    core_at_end d e = true -> core_eqb d (canon d t x) e = false /\ core_at_end d (canon d t x) = false.
+  Proof.
+    intros Hok Hx He. destruct d as [|d'].
+    - cbn [content] in Hx. apply in_map_iff in Hx. destruct Hx as (i & <- & Hi).
+      unfold bits_of in Hi. apply in_flat_map in Hi. destruct Hi as (w & Hw & Hi).
+      apply in_map_iff in Hi. destruct Hi as (p & <- & Hp). rewrite (canon_0_eq t w p Hok Hw Hp).
+      cbn [core_at_end core_eqb] in *. destruct e as [[ie me] ve]. unfold bmit_eqb, bmit_end in He.
+      apply andb_true_iff in He as [He _]. apply sait_eqb_none_r in He. subst. split; reflexivity.
+    - cbn [content] in Hx. apply in_flat_map in Hx. destruct Hx as ([i n] & Hin & Hx). cbn [fst snd] in Hx.
+      apply in_map_iff in Hx. destruct Hx as (r & <- & Hr). rewrite (canon_S_eq d' t i n r Hok Hin).
+      cbn [core_at_end core_eqb fst snd] in *. apply sait_eqb_none_r in He. rewrite He.
+      split; [apply andb_false_r|reflexivity].
+  Qed.
+
+  Lemma mask_above_neq x p p' : p < p' -> N.testbit x p' = true ->
+    N.ldiff x (N.ones (p + 1)) <> N.ldiff x (N.ones (p' + 1)).
+  Proof.
+    intros Hlt Hb E. apply (f_equal (fun z => N.testbit z p')) in E. rewrite !N.ldiff_spec, Hb in E.
+    rewrite N.ones_spec_high in E by lia. rewrite N.ones_spec_low in E by lia. discriminate.
+  Qed.
+
+  (** canonical cores of different stored tuples are told apart by [==] *)
+  Lemma canon_neq d : forall (t : trie d) x y, trie_ok d t -> In x (content d t) -> In y (content d t) ->
+    x <> y -> core_eqb d (canon d t x) (canon d t y) = false.
+  Proof.
+    induction d as [|d' IH]; intros t x y Hok Hx Hy Hne.
+    - cbn [content] in Hx, Hy. apply in_map_iff in Hx. destruct Hx as (i & <- & Hi).
+      apply in_map_iff in Hy. destruct Hy as (j & <- & Hj).
+      unfold bits_of in Hi, Hj. apply in_flat_map in Hi. destruct Hi as ([w a] & Hw & Hi).
+      apply in_flat_map in Hj. destruct Hj as ([w' a'] & Hw' & Hj). cbn [fst snd] in Hi, Hj.
+      apply in_map_iff in Hi. destruct Hi as (p & <- & Hp). apply in_map_iff in Hj. destruct Hj as (p' & <- & Hp').
+      pose proof (canon_0_eq t (w, a) p Hok Hw Hp) as E1. pose proof (canon_0_eq t (w', a') p' Hok Hw' Hp') as E2.
+      cbn [fst snd] in E1, E2. rewrite E1, E2. clear E1 E2.
+      cbn [core_eqb]. unfold bmit_eqb, bm_canon, bm_st, it_at. cbn [fst snd sait_eqb].
+      destruct (N.eqb_spec w w') as [->|Hww]; [|rewrite andb_false_r; reflexivity].
+      destruct Hok as [R _]. pose proof (rep_sorted _ _ _ _ _ R) as HS.
+      assert (a = a').
+      { pose proof (cells_get_sorted_In w' a _ HS Hw) as E1. pose proof (cells_get_sorted_In w' a' _ HS Hw') as E2. congruence. }
+      subst a'. assert (Hpp : p <> p') by (intro; subst; apply Hne; reflexivity).
+      apply bits_list_In in Hp, Hp'.
+      replace (N.ldiff a (N.ones (p + 1)) =? N.ldiff a (N.ones (p' + 1))) with false; [apply andb_false_r|].
+      symmetry. apply N.eqb_neq. destruct (N.lt_ge_cases p p').
+      + apply mask_above_neq; assumption.
+      + intro E. symmetry in E. revert E. apply mask_above_neq; [lia|assumption].
+    - cbn [content] in Hx, Hy. apply in_flat_map in Hx. destruct Hx as ([i n] & Hin & Hx).
+      apply in_flat_map in Hy. destruct Hy as ([j n'] & Hjn & Hy). cbn [fst snd] in Hx, Hy.
+      apply in_map_iff in Hx. destruct Hx as (r & <- & Hr). apply in_map_iff in Hy. destruct Hy as (r' & <- & Hr').
+      rewrite (canon_S_eq d' t i n r Hok Hin), (canon_S_eq d' t j n' r' Hok Hjn).
+      cbn [core_eqb fst snd it_at sait_eqb].
+      destruct (N.eqb_spec i j) as [->|Hij]; [|rewrite andb_false_r, andb_false_r; reflexivity].
+      pose proof Hok as [R HF]. pose proof (rep_sorted _ _ _ _ _ R) as HS.
+      assert (n = n').
+      { pose proof (cells_get_sorted_In j n _ HS Hin) as E1. pose proof (cells_get_sorted_In j n' _ HS Hjn) as E2. congruence. }
+      subst n'. rewrite Forall_forall in HF. destruct (HF _ Hin) as [Hokn _]. cbn [snd] in Hokn.
+      rewrite (IH n r r' Hokn Hr Hr'); [reflexivity|]. intro E. apply Hne. rewrite E. reflexivity.
+  Qed.
+
+  Lemma content_NoDup d (t : trie d) : trie_ok d t -> NoDup (content d t).
+  Proof.
+    intros Hok. pose proof (content_sorted d t Hok) as HS. induction HS as [|a l HS IH HF]; constructor; [|exact IH].
+    intro Hin. rewrite Forall_forall in HF. specialize (HF a Hin). unfold tlt in HF. rewrite tuple_ltb_irrefl in HF. discriminate.
+  Qed.
+
+  (** iterating from the canonical core of the first tuple of a block of consecutive tuples up to
+      a core that is equal to what follows the block yields the block *)
+  Lemma range_block d (t : trie d) (Hok : trie_ok d t) (ec : core d) post :
+    match post with y :: _ => ec = canon d t y | [] => ended d ec end ->
+    forall block pre fuel, content d t = pre ++ block ++ post -> block <> [] -> (length block <= fuel)%nat ->
+    range_loop fx m d t fuel (hd [] block) (canon d t (hd [] block)) ec = Some block.
+  Proof.
+    intros Hec. pose proof (content_NoDup d t Hok) as Hnd.
+    assert (Hdiff : forall pre x rest, content d t = pre ++ (x :: rest) ++ post -> core_eqb d (canon d t x) ec = false).
+    { intros pre x rest Hc. assert (Hx : In x (content d t)) by (rewrite Hc; apply in_or_app; right; left; reflexivity).
+      destruct post as [|y post'].
+      - apply (canon_not_at_end d t x ec Hok Hx). apply ended_at_end, Hec.
+      - subst ec. apply (canon_neq d t x y Hok Hx).
+        + rewrite Hc. apply in_or_app. right. apply in_or_app. right. left; reflexivity.
+        + intros ->. rewrite Hc in Hnd. apply NoDup_remove_2 in Hnd. apply Hnd.
+          apply in_or_app. right. apply in_or_app. right. left; reflexivity. }
+    induction block as [|x block' IH]; intros pre fuel Hc Hne Hf; [congruence|]. clear Hne.
+    cbn [hd]. destruct fuel as [|f]; [cbn in Hf; lia|]. cbn [range_loop].
+    rewrite (Hdiff pre x block' Hc).
+    destruct (inc_canon d t pre x (block' ++ post) Hok) as (cfin & Einc & Hfin).
+    { rewrite Hc. cbn [app]. reflexivity. }
+    rewrite Einc. destruct block' as [|y block''].
+    - cbn [app]. destruct post as [|y post'].
+      + assert (E : core_eqb d cfin ec = true) by (apply ended_eqb; assumption).
+        destruct f; cbn [range_loop]; rewrite E; reflexivity.
+      + subst ec. destruct f; cbn [range_loop]; rewrite core_eqb_refl; reflexivity.
+    - cbn [app]. specialize (IH (pre ++ [x]) f). cbn [hd] in IH. rewrite IH; [reflexivity| |discriminate|cbn in Hf |- *; lia].
+      rewrite Hc, <- app_assoc. reflexivity.
+  Qed.
+
+  (** *** [getBoundaries<k>] *)
+  Lemma filter_prefix_nil (l : list (list Z)) : filter (is_prefix []) l = l.
+  Proof.
+    induction l as [|a l IH]; [reflexivity|]. cbn [filter]. change (is_prefix [] a) with true. cbv iota.
+    rewrite IH. reflexivity.
+  Qed.
+
+  Lemma filter_map_cons_prefix k P' x (l : list (list Z)) :
+    filter (is_prefix (k :: P')) (map (cons x) l) =
+    if Z.eqb k x then map (cons x) (filter (is_prefix P') l) else [].
+  Proof.
+    induction l as [|a l IH]; [cbn [map filter]; destruct (Z.eqb k x); reflexivity|].
+    cbn [map filter]. change (is_prefix (k :: P') (x :: a)) with (Z.eqb k x && is_prefix P' a).
+    rewrite IH. destruct (Z.eqb k x); cbn [andb]; [|reflexivity]. destruct (is_prefix P' a); reflexivity.
+  Qed.
+
+  Lemma filter_prefix_S d' (M : list (N * trie d')) k P' : ksorted M -> (forall i, In i (keys M) -> Q6 i) -> key32 k ->
+    filter (is_prefix (k :: P')) (flat_map (gS d') M) =
+    match cells_get (idx_of_key k) M with
+    | Some n => map (cons k) (filter (is_prefix P') (content d' n))
+    | None => []
+    end.
+  Proof.
+    intros HS HQ Hk. induction M as [|[i n] M IH]; [reflexivity|].
+    inversion HS as [|? ? HS' HF]; subst. cbn [flat_map fst snd cells_get].
+    rewrite filter_app, filter_map_cons_prefix. rewrite (key_eqb_idx k i Hk) by (apply HQ; left; reflexivity).
+    rewrite IH by (try exact HS'; intros j Hj; apply HQ; right; exact Hj).
+    destruct (N.eqb_spec i (idx_of_key k)) as [E|E]; [|reflexivity].
+    replace (cells_get (idx_of_key k) M) with (@None (trie d')).
+    - rewrite app_nil_r. subst i. rewrite key_of_idx_of_key by exact Hk. reflexivity.
+    - symmetry. apply cells_get_None. intro Hin. rewrite Forall_forall in HF. specialize (HF _ Hin). lia.
+  Qed.
+
+  Lemma canon_at_end_false d (t : trie d) x : trie_ok d t -> In x (content d t) -> core_at_end d (canon d t x) = false.
+  Proof.
+    intros Hok Hx. apply (canon_not_at_end d t x (core_end d) Hok Hx). apply ended_at_end. apply core_eqb_end.
+  Qed.
+
+  (** prefix shorter than the arity: begin = the canonical core of the first matching tuple,
+      end = the canonical core of the tuple after the block (or an end core) *)
+  Lemma fb_B d : forall (t : trie d) P, (length P <= d)%nat -> Forall key32 P -> trie_ok d t ->
+    (P = [] -> content d t <> []) ->
+    match filter (is_prefix P) (content d t) with
+    | [] => fix_binding fx m d (length P) t P = Some None
+    | x :: blk => exists pre post ec, content d t = pre ++ (x :: blk) ++ post /\
+        fix_binding fx m d (length P) t P = Some (Some (x, canon d t x, ec)) /\
+        match post with y :: _ => ec = canon d t y | [] => ended d ec end
+    end.
+  Proof.
+    induction d as [|d' IH]; intros t P Hlen HP Hok Hne.
+    - destruct P as [|? ?]; [|cbn in Hlen; lia]. rewrite filter_prefix_nil. specialize (Hne eq_refl).
+      destruct (content 0 t) as [|x rest] eqn:Ec; [congruence|].
+      pose proof (first_canon 0 t x rest Hok Ec) as Hf. cbn [iter_first] in Hf.
+      destruct (bm_begin fx m t) as [a|] eqn:Ea; [|discriminate]. injection Hf as Hx Ha.
+      exists [], [], bmit_end. split; [rewrite app_nil_r; reflexivity|]. split; [|apply (core_eqb_end 0)].
+      cbn [fix_binding length]. rewrite Ea, Hx, Ha. reflexivity.
+    - destruct P as [|k P'].
+      + rewrite filter_prefix_nil. specialize (Hne eq_refl).
+        destruct (content (S d') t) as [|x rest] eqn:Ec; [congruence|].
+        pose proof (first_canon (S d') t x rest Hok Ec) as Hf.
+        exists [], [], (core_end (S d')). split; [rewrite app_nil_r; reflexivity|]. split; [|apply core_eqb_end].
+        cbn [fix_binding length]. rewrite Hf. reflexivity.
+      + clear Hne. inversion HP as [|? ? Hk HP']; subst. cbn [length] in *.
+        pose proof Hok as [R HF]. pose proof (rep_sorted _ _ _ _ _ R) as HS.
+        cbn [content]. rewrite (filter_prefix_S d' _ k P' HS (ok_entries_Q6 d' t Hok) Hk).
+        cbn [fix_binding hd tl].
+        rewrite (find_any fx m SA_BITS (Dk (S d')) Q6 L6 (G6 d') t _ (idx_of_key k) R (idx_of_key_Q6 k Hk)).
+        destruct (cells_get (idx_of_key k) (sa_entries t)) as [n|] eqn:Eg;
+          [repeat match goal with |- context [@cells_get ?V ?i ?M] =>
+                    replace (@cells_get V i M) with (Some n) by (symmetry; exact Eg) end
+          |repeat match goal with |- context [@cells_get ?V ?i ?M] =>
+                    replace (@cells_get V i M) with (@None V) by (symmetry; exact Eg) end; reflexivity].
+        pose proof (cells_get_In _ _ _ Eg) as Hin. apply in_split in Hin. destruct Hin as (M1 & M2 & EM).
+        assert (Hin : In (idx_of_key k, n) (sa_entries t)) by (apply cells_get_In, Eg).
+        rewrite Forall_forall in HF. destruct (HF _ Hin) as [Hokn Hnen]. cbn [snd] in Hokn, Hnen.
+        specialize (IH n P' ltac:(lia) HP' Hokn (fun _ => Hnen)).
+        cbn [it_at fst snd].
+        destruct (filter (is_prefix P') (content d' n)) as [|xn blkn] eqn:Ef.
+        * rewrite IH. reflexivity.
+        * destruct IH as (pre_n & post_n & ec_n & Hcn & Efb & Hecn). rewrite Efb. cbn [map].
+          assert (Hcan : forall y, canon (S d') t (k :: y) = (it_at SA_BITS (sa_levels t) (idx_of_key k, n), canon d' n y)).
+          { intro y. rewrite <- (key_of_idx_of_key k Hk) at 1. apply (canon_S_eq d' t _ n y Hok Hin). }
+          assert (Hcont : flat_map (gS d') (sa_entries t) =
+                    (flat_map (gS d') M1 ++ map (cons k) pre_n) ++ map (cons k) (xn :: blkn) ++
+                    (map (cons k) post_n ++ flat_map (gS d') M2)).
+          { rewrite EM, flat_map_app. cbn [flat_map fst snd]. rewrite key_of_idx_of_key by exact Hk.
+            rewrite Hcn, !map_app, <- !app_assoc. reflexivity. }
+          destruct post_n as [|yn post_n'].
+          -- (* the nested block ends the nested trie: step to the next entry of this level *)
+             rewrite (ended_at_end d' ec_n Hecn).
+             pose proof R as R'. rewrite EM in R'.
+             rewrite (next_spec fx m SA_BITS (Dk (S d')) Q6 L6 (G6 d') t M1 (idx_of_key k) n M2 R').
+             destruct M2 as [|[i' n'] M2'].
+             ++ exists (flat_map (gS d') M1 ++ map (cons k) pre_n), [], (None, ec_n).
+                split; [rewrite Hcont; cbn [map flat_map app]; rewrite !app_nil_r; reflexivity|].
+                split; [cbn [it_hd]; rewrite Hcan; reflexivity|].
+                unfold ended. cbn [core_eqb core_end fst snd sait_eqb]. rewrite Hecn. reflexivity.
+             ++ assert (Hin' : In (i', n') (sa_entries t)) by (rewrite EM; apply in_or_app; right; right; left; reflexivity).
+                destruct (HF _ Hin') as [Hokn' Hnen']. cbn [snd] in *.
+                destruct (content d' n') as [|y' ys'] eqn:Ec'; [congruence|].
+                cbn [it_hd it_at fst snd]. rewrite (first_canon d' n' y' ys' Hokn' Ec').
+                exists (flat_map (gS d') M1 ++ map (cons k) pre_n),
+                       (map (cons (key_of_idx i')) (y' :: ys') ++ flat_map (gS d') M2'),
+                       (it_at SA_BITS (sa_levels t) (i', n'), canon d' n' y').
+                split; [rewrite Hcont; cbn [map flat_map app fst snd]; rewrite Ec'; reflexivity|].
+                split; [rewrite Hcan; reflexivity|]. cbn [map app].
+                symmetry. apply (canon_S_eq d' t i' n' y' Hok Hin').
+          -- (* the nested block is followed by more tuples with the same first component *)
+             subst ec_n.
+             assert (Hyn : In yn (content d' n)).
+             { rewrite Hcn. apply in_or_app. right. apply in_or_app. right. left; reflexivity. }
+             rewrite (canon_at_end_false d' n yn Hokn Hyn).
+             exists (flat_map (gS d') M1 ++ map (cons k) pre_n),
+                    (map (cons k) (yn :: post_n') ++ flat_map (gS d') M2),
+                    (it_at SA_BITS (sa_levels t) (idx_of_key k, n), canon d' n yn).
+             split; [exact Hcont|]. split; [rewrite Hcan; reflexivity|]. cbn [map app]. symmetry. apply Hcan.
+  Qed.
+
+  Lemma filter_prefix_0 (M : list (N * N)) k : ksorted M -> wf_words M -> (forall w, In w (keys M) -> Q4 w) -> key32 k ->
+    filter (is_prefix [k]) (map f0 (bits_of M)) = if bm_mem M (idx_of_key k) then [[k]] else [].
+  Proof.
+    intros HS Hwf HQ Hk.
+    assert (HQ6 : forall i, In i (bits_of M) -> Q6 i).
+    { intros i Hi. unfold bits_of in Hi. apply in_flat_map in Hi. destruct Hi as ([w x] & Hin & Hp). cbn [fst snd] in Hp.
+      apply in_map_iff in Hp. destruct Hp as (p & <- & Hp). apply Q4_Q6; [apply HQ, (in_map fst _ _ Hin)|].
+      unfold wf_words in Hwf. rewrite Forall_forall in Hwf. destruct (Hwf _ Hin) as [_ Hx]. apply (bits_list_lt64 x p Hx Hp). }
+    assert (Hmem : bm_mem M (idx_of_key k) = true <-> In (idx_of_key k) (bits_of M)) by (symmetry; apply bits_of_In; assumption).
+    pose proof (bits_of_sorted M HS Hwf) as Hsort. revert HQ6 Hmem Hsort. generalize (bits_of M). intros l HQ6 Hmem Hsort.
+    assert (Hgen : forall l : list N, (forall i, In i l -> Q6 i) -> StronglySorted N.lt l ->
+              filter (is_prefix [k]) (map f0 l) = if existsb (N.eqb (idx_of_key k)) l then [[k]] else []).
+    { clear - Hk. intros l. induction l as [|i l IH]; intros HQ6 Hs; [reflexivity|]. inversion Hs as [|? ? Hs' HF]; subst.
+      cbn [map filter existsb]. change (is_prefix [k] [key_of_idx i]) with (Z.eqb k (key_of_idx i) && true).
+      rewrite andb_true_r. rewrite IH by (try exact Hs'; intros j Hj; apply HQ6; right; exact Hj).
+      destruct (Z.eqb_spec k (key_of_idx i)) as [E|E].
+      - assert (Ei : idx_of_key k = i) by (rewrite E; apply idx_of_key_of_idx, HQ6; left; reflexivity).
+        rewrite Ei, N.eqb_refl. cbn [orb]. rewrite <- E.
+        replace (existsb (N.eqb i) l) with false; [reflexivity|]. symmetry. apply not_true_is_false. intro Hex.
+        apply existsb_exists in Hex. destruct Hex as (j & Hj & Ej). apply N.eqb_eq in Ej. subst j.
+        rewrite Forall_forall in HF. specialize (HF i Hj). lia.
+      - replace (idx_of_key k =? i) with false; [reflexivity|]. symmetry. apply N.eqb_neq. intro Ei. apply E.
+        rewrite <- Ei. symmetry. apply key_of_idx_of_key. exact Hk. }
+    rewrite (Hgen l HQ6 Hsort). destruct (bm_mem M (idx_of_key k)) eqn:Eb.
+    - replace (existsb (N.eqb (idx_of_key k)) l) with true; [reflexivity|]. symmetry. apply existsb_exists.
+      exists (idx_of_key k). split; [apply Hmem; reflexivity|apply N.eqb_refl].
+    - replace (existsb (N.eqb (idx_of_key k)) l) with false; [reflexivity|]. symmetry. apply not_true_is_false. intro Hex.
+      apply existsb_exists in Hex. destruct Hex as (j & Hj & Ej). apply N.eqb_eq in Ej. subst j.
+      apply Hmem in Hj. congruence.
+  Qed.
+
+  (** prefix of full length: the range is the tuple itself (if stored); the end iterator is the
+      begin iterator incremented once *)
+  Lemma fb_A d : forall (t : trie d) P, length P = S d -> Forall key32 P -> trie_ok d t ->
+    match filter (is_prefix P) (content d t) with
+    | [] => fix_binding fx m d (S d) t P = Some None
+    | x :: rest => x = P /\ rest = [] /\ exists bc ec b vs',
+        fix_binding fx m d (S d) t P = Some (Some (P, bc, ec)) /\
+        core_inc fx m d t P bc = Some (b, vs', ec) /\ b = negb (core_at_end d ec) /\
+        core_eqb d bc ec = false
+    end.
+  Proof.
+    induction d as [|d' IH]; intros t P Hlen HP Hok.
+    - destruct P as [|k [|? ?]]; try discriminate. inversion HP as [|? ? Hk _]; subst.
+      pose proof Hok as [R Hwf]. pose proof (rep_sorted _ _ _ _ _ R) as HS.
+      assert (HQw : forall w, In w (keys (sa_entries t)) -> Q4 w) by (intros w Hw; apply HD4Q, (rep_dom _ _ _ _ _ R w Hw)).
+      cbn [content]. rewrite (filter_prefix_0 _ k HS Hwf HQw Hk).
+      cbn [fix_binding hd]. set (i := idx_of_key k) in *.
+      rewrite (bm_find_spec fx m D4 Q4 L4 G4 HD58 t _ i R (Q6_Q4 _ (idx_of_key_Q6 k Hk))).
+      destruct (bm_mem (sa_entries t) i) eqn:Eb; [|reflexivity].
+      split; [reflexivity|]. split; [reflexivity|].
+      assert (Hw : exists w, cells_get (i / 64) (sa_entries t) = Some w).
+      { unfold bm_mem, word_at in Eb. destruct (cells_get (i / 64) (sa_entries t)) as [w|]; [eauto|].
+        rewrite N.bits_0 in Eb. discriminate. }
+      destruct Hw as (w & Eg). unfold word_at. rewrite Eg.
+      pose proof (cells_get_In _ _ _ Eg) as Hin. apply in_split in Hin. destruct Hin as (M1 & M2 & EM).
+      pose proof R as R'. rewrite EM in R'.
+      destruct (bm_next_found fx m D4 Q4 L4 G4 HD58 t M1 (i / 64) w M2 (N.land w (2 ^ (i mod 64) - 1)) i R')
+        as (nx & Enx & Hneq & Hend).
+      change (bmit_eqb (it_at BM_BITS (sa_levels t) (i / 64, w), N.land w (2 ^ (i mod 64) - 1), i) bmit_end) with false.
+      cbv iota. rewrite Enx.
+      exists (it_at BM_BITS (sa_levels t) (i / 64, w), N.land w (2 ^ (i mod 64) - 1), i), nx.
+      destruct (fst (fst nx)) eqn:Et.
+      + exists true, [key_of_idx (snd nx)]. split; [reflexivity|].
+        split; [cbn [core_inc]; rewrite Enx, Et; reflexivity|].
+        split; [cbn [core_at_end]; rewrite Hend; reflexivity|exact Hneq].
+      + exists false, [k]. split; [reflexivity|].
+        split; [cbn [core_inc]; rewrite Enx, Et; reflexivity|].
+        split; [cbn [core_at_end]; rewrite Hend; reflexivity|exact Hneq].
+    - destruct P as [|k P']; [discriminate|]. injection Hlen as Hlen. inversion HP as [|? ? Hk HP']; subst.
+      pose proof Hok as [R HF]. pose proof (rep_sorted _ _ _ _ _ R) as HS.
+      cbn [content]. rewrite (filter_prefix_S d' _ k P' HS (ok_entries_Q6 d' t Hok) Hk).
+      cbn [fix_binding hd tl].
+      rewrite (find_any fx m SA_BITS (Dk (S d')) Q6 L6 (G6 d') t _ (idx_of_key k) R (idx_of_key_Q6 k Hk)).
+      destruct (cells_get (idx_of_key k) (sa_entries t)) as [n|] eqn:Eg;
+        [repeat match goal with |- context [@cells_get ?V ?i ?M] =>
+                  replace (@cells_get V i M) with (Some n) by (symmetry; exact Eg) end
+        |repeat match goal with |- context [@cells_get ?V ?i ?M] =>
+                  replace (@cells_get V i M) with (@None V) by (symmetry; exact Eg) end; reflexivity].
+      pose proof (cells_get_In _ _ _ Eg) as Hin. pose proof Hin as Hin2. apply in_split in Hin2. destruct Hin2 as (M1 & M2 & EM).
+      rewrite Forall_forall in HF. destruct (HF _ Hin) as [Hokn Hnen]. cbn [snd] in Hokn, Hnen.
+      specialize (IH n P' Hlen HP' Hokn). cbn [it_at fst snd].
+      destruct (filter (is_prefix P') (content d' n)) as [|xn restn] eqn:Ef.
+      + rewrite IH. reflexivity.
+      + destruct IH as (-> & -> & bc_n & ec_n & b_n & vs_n & Efb & Einc & Hb & Hneq). rewrite Efb. cbn [map].
+        split; [reflexivity|]. split; [reflexivity|].
+        pose proof R as R'. rewrite EM in R'.
+        pose proof (next_spec fx m SA_BITS (Dk (S d')) Q6 L6 (G6 d') t M1 (idx_of_key k) n M2 R') as Hnext.
+        destruct (core_at_end d' ec_n) eqn:Eend; cbn [negb] in Hb; subst b_n.
+        * rewrite Hnext. destruct M2 as [|[i' n'] M2']; cbn [it_hd it_at fst snd].
+          -- do 4 eexists. split; [reflexivity|].
+             split; [cbn [core_inc tl hd it_at fst snd]; rewrite Einc, Hnext; cbn [it_hd]; reflexivity|].
+             split; [reflexivity|]. cbn [core_eqb fst snd sait_eqb]. apply andb_false_r.
+          -- assert (Hin' : In (i', n') (sa_entries t)) by (rewrite EM; apply in_or_app; right; right; left; reflexivity).
+             destruct (HF _ Hin') as [Hokn' Hnen']. cbn [snd] in *.
+             destruct (content d' n') as [|y' ys'] eqn:Ec'; [congruence|].
+             rewrite (first_canon d' n' y' ys' Hokn' Ec').
+             do 4 eexists. split; [reflexivity|].
+             split; [cbn [core_inc tl hd it_at fst snd]; rewrite Einc, Hnext; cbn [it_hd it_at fst snd];
+                     rewrite (first_canon d' n' y' ys' Hokn' Ec'); reflexivity|].
+             split; [reflexivity|]. cbn [core_eqb fst snd sait_eqb it_at].
+             assert (Hlt : idx_of_key k < i').
+             { pose proof (split_keys_facts M1 ((i', n') :: M2') (idx_of_key k) n (rep_sorted _ _ _ _ _ R')) as [_ H2].
+               apply (H2 (i', n')). left; reflexivity. }
+             replace (idx_of_key k =? i') with false by lia. rewrite !andb_false_r. reflexivity.
+        * do 4 eexists. split; [reflexivity|].
+          split; [cbn [core_inc tl hd it_at fst snd]; rewrite Einc; reflexivity|]. split; [reflexivity|].
+          cbn [core_eqb fst snd]. rewrite Hneq. reflexivity.
+  Qed.
+
+  Lemma filter_len_le {A} (f : A -> bool) l : (length (filter f l) <= length l)%nat.
+  Proof. induction l as [|a l IH]; cbn [filter length]; [lia|]. destruct (f a); cbn [length]; lia. Qed.
+
+  (** all tuples with a given prefix, in iteration order *)
+  Theorem prefix_spec d (t : trie d) P : trie_ok d t -> (length P <= S d)%nat -> Forall key32 P ->
+    trie_prefix fx m d t P = Some (set_prefix P (content d t)).
+  Proof.
+    intros Hok Hlen HP. unfold trie_prefix, set_prefix. destruct P as [|k P'].
+    - rewrite filter_prefix_nil. apply iter_trie_spec, Hok.
+    - set (P := k :: P') in *.
+      assert (Hfuel : (length (filter (is_prefix P) (content d t)) <= 2 * trie_weight d t + 2)%nat).
+      { rewrite (weight_spec d t Hok). pose proof (filter_len_le (is_prefix P) (content d t)). lia. }
+      destruct (Nat.eq_dec (length P) (S d)) as [Efull|Eshort].
+      + pose proof (fb_A d t P Efull HP Hok) as H. rewrite Efull.
+        destruct (filter (is_prefix P) (content d t)) as [|x rest] eqn:Ef; [rewrite H; reflexivity|].
+        destruct H as (-> & -> & bc & ec & b & vs' & Efb & Einc & _ & Hneq). rewrite Efb.
+        destruct (2 * trie_weight d t + 2)%nat as [|f] eqn:Efu; [lia|].
+        cbn [range_loop]. rewrite Hneq, Einc. destruct f; cbn [range_loop]; rewrite core_eqb_refl; reflexivity.
+      + pose proof (fb_B d t P ltac:(lia) HP Hok ltac:(discriminate)) as H.
+        destruct (filter (is_prefix P) (content d t)) as [|x blk] eqn:Ef; [rewrite H; reflexivity|].
+        destruct H as (pre & post & ec & Hc & Efb & Hec). rewrite Efb.
+        apply (range_block d t Hok ec post Hec (x :: blk) pre _ Hc); [discriminate|].
+        exact Hfuel.
+  Qed.
+
+  (** *** [partition] *)
+  (** the tuples grouped by top-level element of the trie *)
+  Definition tgroups (d : nat) : trie d -> list (list (list Z)) :=
+    match d return trie d -> list (list (list Z)) with
+    | O => fun t => map (fun x => [x]) (content 0 t)
+    | S d' => fun t => map (gS d') (sa_entries t)
+    end.
+  Definition gstart (d : nat) (t : trie d) (g : list (list Z)) : list Z * core d :=
+    (hd [] g, canon d t (hd [] g)).
+
+  Lemma tgroups_concat d (t : trie d) : concat (tgroups d t) = content d t.
+  Proof.
+    destruct d; cbn [tgroups content].
+    - induction (map f0 (bits_of (sa_entries t))) as [|x l IH]; cbn [map concat app]; [reflexivity|]. rewrite IH. reflexivity.
+    - rewrite flat_map_concat_map. reflexivity.
+  Qed.
+
+  Lemma tgroups_nonempty d (t : trie d) : trie_ok d t -> Forall (fun g => g <> []) (tgroups d t).
+  Proof.
+    intros Hok. destruct d; cbn [tgroups]; apply Forall_forall; intros g Hg; apply in_map_iff in Hg; destruct Hg as (e & <- & He).
+    - discriminate.
+    - destruct Hok as [_ HF]. rewrite Forall_forall in HF. destruct (HF _ He) as [_ Hne].
+      destruct (content d (snd e)); [congruence|discriminate].
+  Qed.
+
+  Lemma bm_canons_content (t : trie 0) : trie_ok 0 t ->
+    map (fun it : bmit => ([key_of_idx (snd it)], it)) (bm_canons (sa_levels t) (sa_entries t)) =
+    map (gstart 0 t) (tgroups 0 t).
+  Proof.
+    intros Hok. cbn [tgroups content]. rewrite map_map. unfold gstart. cbn [hd].
+    unfold bm_canons, bits_of, word_canons.
+    assert (H : forall M, (forall e, In e M -> In e (sa_entries t)) ->
+              map (fun it : bmit => ([key_of_idx (snd it)], it))
+                  (flat_map (fun e => map (bm_canon (sa_levels t) e) (bits_list (snd e))) M) =
+              map (fun x => (x, canon 0 t x))
+                  (map f0 (flat_map (fun e => map (fun p => fst e * 64 + p) (bits_list (snd e))) M))).
+    { induction M as [|e M IH]; intros Hsub; [reflexivity|]. cbn [flat_map]. rewrite !map_app.
+      rewrite IH by (intros e' He'; apply Hsub; right; exact He'). f_equal.
+      rewrite !map_map. apply map_ext_in. intros p Hp.
+      rewrite (canon_0_eq t e p Hok (Hsub e ltac:(left; reflexivity)) Hp). reflexivity. }
+    apply H. auto.
+  Qed.
+
+  (** the iterators [partition] may cut at *)
+  Lemma top_starts_spec d (t : trie d) : trie_ok d t -> content d t <> [] ->
+    top_starts fx m d t = Some (map (gstart d t) (tgroups d t)).
+  Proof.
+    intros Hok Hne. destruct d as [|d'].
+    - pose proof Hok as [R Hwf]. cbn [top_starts]. rewrite (bm_begin_spec fx m D4 Q4 L4 G4 HD58 t _ R Hwf).
+      pose proof (content0_nonempty t Hne) as HM.
+      destruct (sa_entries t) as [|e M'] eqn:EM; [congruence|].
+      inversion Hwf as [|? ? [Hx1 Hx2] _]; subst. rewrite (bm_first_canon _ _ Hx1).
+      pose proof (bits_list_ctz (snd e) Hx1) as Hc.
+      pose proof R as R'. pose proof Hwf as Hwf'.
+      rewrite (bm_its_loop_spec fx m D4 Q4 L4 G4 HD58 t M' [] e [] (ctz (snd e)) _ _ R' Hwf' Hc).
+      + rewrite <- (bm_canons_content t Hok). rewrite EM. cbn [bm_canons flat_map word_canons]. rewrite Hc. reflexivity.
+      + pose proof (weight_spec 0 t Hok) as Hw. cbn [content] in Hw. rewrite map_length, EM in Hw.
+        unfold bits_of in Hw. cbn [flat_map] in Hw. rewrite app_length, map_length in Hw. fold (bits_of M') in Hw.
+        rewrite bm_canons_length. cbn [trie_weight] in Hw |- *. rewrite Hw.
+        rewrite Hc. cbn [length]. lia.
+    - pose proof Hok as [R HF]. cbn [top_starts tgroups].
+      rewrite (its_spec fx m SA_BITS (Dk (S d')) Q6 L6 (G6 d') t _ R).
+      assert (H : forall M, (forall e, In e M -> In e (sa_entries t)) ->
+        fold_right (fun (e : N * N * trie d') acc =>
+                      do a <- acc; let '(q, f, n) := e in
+                      do r <- iter_first fx m d' n; let '(vs, c) := r in
+                      Some ((key_of_idx f :: vs, (Some (q, f, n), c)) :: a)) (Some [])
+                   (map (fun e => (posof SA_BITS (sa_levels t) (fst e) / 2 ^ SA_BITS, fst e, snd e)) M)
+        = Some (map (gstart (S d') t) (map (gS d') M))).
+      { induction M as [|[i n] M IH]; intros Hsub; [reflexivity|]. cbn [map fold_right fst snd].
+        rewrite IH by (intros e' He'; apply Hsub; right; exact He').
+        assert (Hin : In (i, n) (sa_entries t)) by (apply Hsub; left; reflexivity).
+        rewrite Forall_forall in HF. destruct (HF _ Hin) as [Hokn Hnen]. cbn [snd] in *.
+        destruct (content d' n) as [|y ys] eqn:Ec; [congruence|].
+        rewrite (first_canon d' n y ys Hokn Ec). unfold gstart at 2. cbn [map hd].
+        rewrite (canon_S_eq d' t i n y Hok Hin). reflexivity. }
+      apply H. auto.
+  Qed.
+
+  Lemma hd_app_ne {A} (dflt : A) l1 l2 : l1 <> [] -> hd dflt (l1 ++ l2) = hd dflt l1.
+  Proof. destruct l1; [congruence|reflexivity]. Qed.
+
+  (** cutting at canonical cores reproduces the merge of the groups *)
+  Lemma chunks_loop_spec d (t : trie d) (Hok : trie_ok d t) step fuel :
+    (length (content d t) <= fuel)%nat ->
+    forall gs c pre cur, content d t = pre ++ cur ++ concat gs -> cur <> [] -> Forall (fun g => g <> []) gs ->
+    chunks_loop fx m d t fuel (hd [] cur) (canon d t (hd [] cur)) (cut_points step c (map (gstart d t) gs))
+      = Some (merge_cut step c gs cur).
+  Proof.
+    intros Hfuel. induction gs as [|g r IH]; intros c pre cur Hc Hcur Hgs.
+    - cbn [map cut_points chunks_loop merge_cut]. cbn [concat] in Hc.
+      rewrite (range_block d t Hok (core_end d) [] (core_eqb_end d) cur pre fuel Hc Hcur); [reflexivity|].
+      rewrite Hc, !app_length in Hfuel. lia.
+    - inversion Hgs as [|? ? Hg Hr]; subst. cbn [map cut_points merge_cut concat] in *.
+      destruct ((c mod step =? 0) && negb (c =? 1)).
+      + unfold gstart at 1. cbn [chunks_loop].
+        assert (Hpost : exists y post', g ++ concat r = y :: post' /\ hd [] g = y).
+        { destruct g as [|y g']; [congruence|]. exists y, (g' ++ concat r). split; reflexivity. }
+        destruct Hpost as (y & post' & Epost & Ey).
+        rewrite (range_block d t Hok (canon d t (hd [] g)) (y :: post') ltac:(rewrite Ey; reflexivity) cur pre fuel);
+          [| rewrite <- Epost; exact Hc | exact Hcur | rewrite Hc, !app_length in Hfuel; lia].
+        rewrite (IH (c + 1) (pre ++ cur) g); [reflexivity| |exact Hg|exact Hr].
+        rewrite Hc, <- app_assoc. reflexivity.
+      + rewrite <- (hd_app_ne [] cur g Hcur).
+        apply (IH (c + 1) pre (cur ++ g)); [|destruct cur; [congruence|discriminate]|exact Hr].
+        rewrite Hc, <- !app_assoc. reflexivity.
+  Qed.
+
+  Lemma groups_cons_same t u g gs r : groups_by_hd r = (u :: g) :: gs -> hd 0%Z t = hd 0%Z u ->
+    groups_by_hd (t :: r) = (t :: u :: g) :: gs.
+  Proof. intros E H. cbn [groups_by_hd]. rewrite E, H, Z.eqb_refl. reflexivity. Qed.
+
+  (** a run of tuples with the same first component, followed by a different one, is one group *)
+  Lemma groups_app_group k (g : list (list Z)) rest : g <> [] -> Forall (fun x => hd 0%Z x = k) g ->
+    match rest with [] => True | y :: _ => hd 0%Z y <> k end ->
+    Forall (fun x => x <> []) (groups_by_hd rest) ->
+    groups_by_hd (g ++ rest) = g :: groups_by_hd rest.
+  Proof.
+    intros Hne Hk Hrest Hwf. induction g as [|x g IH]; [congruence|]. clear Hne.
+    inversion Hk as [|? ? Hx Hk']; subst. destruct g as [|x' g'].
+    - cbn [app]. cbn [groups_by_hd]. destruct rest as [|y rest']; [reflexivity|].
+      destruct (groups_by_hd (y :: rest')) as [|[|u gu] gs] eqn:Eg.
+      + reflexivity.
+      + inversion Hwf as [|? ? Hbad _]; congruence.
+      + assert (Hu : u = y).
+        { cbn [groups_by_hd] in Eg. destruct (groups_by_hd rest') as [|[|u' g''] gs'']; try (injection Eg as <- _ _; reflexivity).
+          destruct (Z.eqb (hd 0%Z y) (hd 0%Z u')); injection Eg as <- _ _; reflexivity. }
+        subst u. replace (Z.eqb (hd 0%Z x) (hd 0%Z y)) with false; [reflexivity|].
+        symmetry. apply Z.eqb_neq. intro E. apply Hrest. rewrite <- E. reflexivity.
+    - specialize (IH ltac:(discriminate) Hk'). cbn [app] in IH |- *.
+      inversion Hk' as [|? ? Hx' _]; subst. apply groups_cons_same; [exact IH|]. congruence.
+  Qed.
+
+  Lemma groups_nonempty s : Forall (fun x => x <> []) (groups_by_hd s).
+  Proof.
+    induction s as [|t r IH]; cbn [groups_by_hd]; [constructor|].
+    destruct (groups_by_hd r) as [|[|u g] gs].
+    - repeat constructor; discriminate.
+    - repeat constructor; discriminate.
+    - inversion IH as [|? ? _ IH']; subst. destruct (Z.eqb (hd 0%Z t) (hd 0%Z u)).
+      + constructor; [discriminate|assumption].
+      + constructor; [discriminate|]. constructor; [discriminate|assumption].
+  Qed.
+
+  Lemma key_of_idx_inj i j : Q6 i -> Q6 j -> key_of_idx i = key_of_idx j -> i = j.
+  Proof. intros Hi Hj E. rewrite <- (idx_of_key_of_idx i Hi), <- (idx_of_key_of_idx j Hj), E. reflexivity. Qed.
+
+  Lemma groups_flat d' (M : list (N * trie d')) : ksorted M -> (forall i, In i (keys M) -> Q6 i) ->
+    Forall (fun e => content d' (snd e) <> []) M ->
+    groups_by_hd (flat_map (gS d') M) = map (gS d') M.
+  Proof.
+    unfold ksorted. induction M as [|[i n] M IH]; intros HS HQ HF; [reflexivity|].
+    inversion HS as [|? ? HS' HFk]; subst. inversion HF as [|? ? Hne HF']; subst. cbn [fst snd] in *.
+    cbn [flat_map map fst snd].
+    rewrite <- (IH HS') by (try exact HF'; intros j Hj; apply HQ; right; exact Hj).
+    apply (groups_app_group (key_of_idx i)).
+    - destruct (content d' n); [congruence|discriminate].
+    - apply Forall_forall. intros x Hx. apply in_map_iff in Hx. destruct Hx as (r & <- & _). reflexivity.
+    - destruct M as [|[j n'] M']; [exact I|]. cbn [flat_map fst snd].
+      inversion HF' as [|? ? Hne' _]; subst. cbn [snd] in Hne'.
+      destruct (content d' n') as [|y ys]; [congruence|]. cbn [map app hd]. intro E.
+      apply key_of_idx_inj in E; [|apply HQ; right; left; reflexivity|apply HQ; left; reflexivity].
+      rewrite Forall_forall in HFk. specialize (HFk j ltac:(left; reflexivity)). lia.
+    - apply groups_nonempty.
+  Qed.
+
+  (** the groups of the set model are the top-level elements of the trie *)
+  Lemma groups_content d (t : trie d) : trie_ok d t -> groups_by_hd (content d t) = tgroups d t.
+  Proof.
+    intros Hok. destruct d as [|d'].
+    - pose proof Hok as [R Hwf]. cbn [tgroups content].
+      pose proof (bits_of_sorted _ (rep_sorted _ _ _ _ _ R) Hwf) as HS.
+      assert (HQ : forall i, In i (bits_of (sa_entries t)) -> Q6 i).
+      { intros i Hi. unfold bits_of in Hi. apply in_flat_map in Hi. destruct Hi as ([w x] & Hin & Hp).
+        cbn [fst snd] in Hp. apply in_map_iff in Hp. destruct Hp as (p & <- & Hp). apply Q4_Q6.
+        - apply HD4Q, (rep_dom _ _ _ _ _ R w). apply (in_map fst) in Hin. exact Hin.
+        - unfold wf_words in Hwf. rewrite Forall_forall in Hwf. destruct (Hwf _ Hin) as [_ Hx]. apply (bits_list_lt64 x p Hx Hp). }
+      induction (bits_of (sa_entries t)) as [|i l IH]; [reflexivity|]. inversion HS as [|? ? HS' HF]; subst.
+      cbn [map]. change ([key_of_idx i] :: map f0 l) with ([[key_of_idx i]] ++ map f0 l).
+      rewrite <- (IH HS') by (intros j Hj; apply HQ; right; exact Hj).
+      apply (groups_app_group (key_of_idx i)); [discriminate|repeat constructor| |apply groups_nonempty].
+      destruct l as [|j l']; [exact I|]. cbn [map hd]. intro E.
+      apply key_of_idx_inj in E; [|apply HQ; right; left; reflexivity|apply HQ; left; reflexivity].
+      rewrite Forall_forall in HF. specialize (HF j ltac:(left; reflexivity)). lia.
+    - pose proof (ok_entries_Q6 d' t Hok) as HQ. pose proof Hok as [R HF]. cbn [tgroups content].
+      apply groups_flat; [apply (rep_sorted _ _ _ _ _ R)|exact HQ|].
+      eapply Forall_impl; [|exact HF]. intros e [_ He]. exact He.
+  Qed.
+
+  (** [partition(n)] returns the chunks of the set model *)
+  Theorem partition_spec d (t : trie d) n : trie_ok d t -> n <> 0 -> content d t <> [] ->
+    trie_partition fx m d t n = Some (set_partition (content d t) n).
+  Proof.
+    intros Hok Hn Hne. unfold trie_partition, set_partition.
+    pose proof (ok_empty_iff d t Hok) as He.
+    destruct (trie_is_empty d t) eqn:Eemp; [exfalso; apply Hne, He; reflexivity|].
+    replace (n =? 0) with false by lia.
+    rewrite (top_starts_spec d t Hok Hne), (groups_content d t Hok). rewrite map_length.
+    pose proof (tgroups_concat d t) as Hcat. pose proof (tgroups_nonempty d t Hok) as Hgne.
+    destruct (tgroups d t) as [|g gs] eqn:Eg; [cbn in Hcat; congruence|].
+    inversion Hgne as [|? ? Hg Hgs]; subst.
+    unfold trie_begin. rewrite Eemp.
+    destruct g as [|x0 g']; [congruence|].
+    assert (Ec : content d t = x0 :: (g' ++ concat gs)) by (rewrite <- Hcat; reflexivity).
+    rewrite (first_canon d t x0 _ Hok Ec).
+    cbn [map cut_points]. change (1 mod _ =? 0) with (1 mod N.max (N.of_nat (length ((x0 :: g') :: gs)) / n) 1 =? 0).
+    replace ((1 mod N.max (N.of_nat (length ((x0 :: g') :: gs)) / n) 1 =? 0) && negb (1 =? 1)) with false
+      by (rewrite N.eqb_refl; cbn [negb]; rewrite andb_false_r; reflexivity).
+    change (1 + 1) with 2.
+    assert (Hfuel : (length (content d t) <= 2 * trie_weight d t + 2)%nat) by (rewrite (weight_spec d t Hok); lia).
+    apply (chunks_loop_spec d t Hok _ _ Hfuel gs 2 [] (x0 :: g')); [|discriminate|exact Hgs].
+    rewrite <- Hcat. reflexivity.
+  Qed.
+
   (** *** histories *)
   Definition op_ok (d : nat) (o : op) : Prop :=
     match o with
     | OIns tup => tup_ok d tup
     | OMem q => tup32 d q
-    | OSize | OIter => True
-    | OPrefix _ => False
+    | OSize | OIter | OPart _ => True
+    | OPrefix p => (length p <= S d)%nat /\ Forall key32 p
     end.
 
   Lemma insert_content d (t t' : trie d) tup r : trie_ok d t -> tup_ok d tup ->
@@ -2213,20 +3136,26 @@ Section TrieRefine.
         destruct Hx as [->|Hx]; [left; apply tuple_eqb_eq; reflexivity|right; apply set_mem_In, Hx].
   Qed.
 
-  (** every history of admissible inserts, membership tests, size and iteration requests gets the
-      answers of the set model *)
+  (** every history of admissible inserts, membership tests, size, iteration, prefix and partition
+      requests gets the answers of the set model *)
   Theorem run_refines d : forall h (t : trie d), trie_ok d t -> Forall (op_ok d) h ->
     run_model fx m d t h = run_spec (content d t) h.
   Proof.
     induction h as [|o h IH]; intros t Hok Hh; [reflexivity|].
-    inversion Hh as [|? ? Ho Hh']; subst. destruct o as [tup|q| | |p]; cbn [run_model run_spec op_ok] in *.
+    inversion Hh as [|? ? Ho Hh']; subst. destruct o as [tup|q| | |p|n]; cbn [run_model run_spec op_ok] in *.
     - destruct (insert_spec d t tup Hok Ho) as (t' & E & _). rewrite E.
       destruct (insert_content d t t' tup _ Hok Ho E) as (_ & Hok' & Ec).
       rewrite (IH t' Hok' Hh'), Ec. reflexivity.
     - rewrite (contains_spec d t q Hok Ho), (IH t Hok Hh'). reflexivity.
     - rewrite (size_spec d t Hok), (IH t Hok Hh'). reflexivity.
     - rewrite (iter_trie_spec d t Hok), (IH t Hok Hh'). reflexivity.
-    - contradiction.
+    - destruct Ho as [Hl Hp]. rewrite (prefix_spec d t p Hok Hl Hp), (IH t Hok Hh'). reflexivity.
+    - rewrite (IH t Hok Hh'). f_equal. pose proof (ok_empty_iff d t Hok) as He.
+      destruct (content d t) as [|x rest] eqn:Ec.
+      + unfold trie_partition. rewrite (proj2 He eq_refl). reflexivity.
+      + destruct (N.eqb_spec n 0) as [->|Hn].
+        * unfold trie_partition. destruct (trie_is_empty d t); [pose proof (proj1 He eq_refl); discriminate|reflexivity].
+        * rewrite (partition_spec d t n Hok Hn) by (rewrite Ec; discriminate). rewrite Ec. reflexivity.
   Qed.
 End TrieRefine.
 
@@ -2235,8 +3164,8 @@ Definition ops32 (d : nat) (o : op) : Prop :=
   match o with
   | OIns tup => tup32 d tup
   | OMem q => tup32 d q
-  | OSize | OIter => True
-  | OPrefix _ => False
+  | OSize | OIter | OPart _ => True
+  | OPrefix p => (length p <= S d)%nat /\ Forall key32 p
   end.
 
 (** *** the repaired header: no hypothesis on the keys *)
@@ -2272,8 +3201,8 @@ Definition ops_signs (sg : nat -> bool) (d : nat) (o : op) : Prop :=
   match o with
   | OIns tup => tup_signs sg d tup
   | OMem q => tup32 d q
-  | OSize | OIter => True
-  | OPrefix _ => False
+  | OSize | OIter | OPart _ => True
+  | OPrefix p => (length p <= S d)%nat /\ Forall key32 p
   end.
 
 Lemma sign_D6s neg k : key32 k -> sign_ok neg k -> D6s neg (idx_of_key k).
@@ -2409,24 +3338,12 @@ Example fixed_mixed_sign :
     = [ABool true; ABool true; ABool true; ATuples [[5; 2]; [-1; 1]]; ATuples [[-1; 1]]; ANum 2].
 Proof. vm_compute. repeat split. Qed.
 
-(** ** Part M: prefix ranges ([getBoundaries<k>]), bounded check
-    All histories of at most [n] inserts of tuples over the given keys, each followed by every
-    prefix query (of every length, over the same keys): the model answers like the set model. *)
-Fixpoint tuples_over (keys : list Z) (len : nat) : list (list Z) :=
-  match len with
-  | O => [[]]
-  | S l => flat_map (fun k => map (cons k) (tuples_over keys l)) keys
-  end.
-Fixpoint prefixes_over (keys : list Z) (len : nat) : list (list Z) :=
-  match len with
-  | O => [[]]
-  | S l => prefixes_over keys l ++ tuples_over keys (S l)
-  end.
-Fixpoint hists_upto (tups : list (list Z)) (n : nat) : list (list op) :=
-  match n with
-  | O => [[]]
-  | S n' => [] :: flat_map (fun t => map (cons (OIns t)) (hists_upto tups n')) tups
-  end.
+(** ** Part M: the exact condition under which the unchanged header goes wrong (bounded check)
+    For one SparseArray/SparseBitMap the analysis (see the end of this file) says: the structure is
+    damaged exactly when the first key inserted is negative and a later one is non-negative. Checked
+    exhaustively here for Trie<1>: all insertion sequences of length <= 3 over five keys, each
+    followed by a membership test for every key, a full iteration and size(): the x86 model of the
+    unchanged header agrees with the set model iff the sequence is not of that shape. *)
 Definition ans_eqb (a c : ans) : bool :=
   match a, c with
   | ABool x, ABool y => Bool.eqb x y
@@ -2446,20 +3363,217 @@ Fixpoint anss_eqb (a c : list ans) : bool :=
   | x :: a', y :: c' => ans_eqb x y && anss_eqb a' c'
   | _, _ => false
   end.
-Definition prefix_check (fx : bool) (m : shmode) (d : nat) (keys : list Z) (n : nat) : bool :=
-  let qs := map OPrefix (prefixes_over keys (S d)) ++ [OIter; OSize] in
-  forallb (fun h => anss_eqb (run_model fx m d (trie_empty d) (h ++ qs)) (run_spec [] (h ++ qs)))
-          (hists_upto (tuples_over keys (S d)) n).
+Fixpoint lists_upto (keys : list Z) (n : nat) : list (list Z) :=
+  match n with
+  | O => [[]]
+  | S n' => [] :: flat_map (fun k => map (cons k) (lists_upto keys n')) keys
+  end.
+(** first key negative and some later key non-negative *)
+Definition bad_order (ks : list Z) : bool :=
+  match ks with
+  | k :: r => (k <? 0) && existsb (fun x => 0 <=? x) r
+  | [] => false
+  end.
+Definition exact_check (keys : list Z) (n : nat) : bool :=
+  let qs := map (fun k => OMem [k]) keys ++ [OIter; OSize] in
+  forallb (fun ks => let h := map (fun k => OIns [k]) ks ++ qs in
+                     Bool.eqb (anss_eqb (run_model false X86 0 (trie_empty 0) h) (run_spec [] h))
+                              (negb (bad_order ks)))
+          (lists_upto keys n).
 
-Theorem prefix_range_bounded_fixed :
-  prefix_check true UBexplicit 0 [-2147483648; -65; -1; 0; 5; 64; 2147483647] 2 = true /\
-  prefix_check true UBexplicit 1 [-2147483648; -1; 0; 64] 2 = true /\
-  prefix_check true UBexplicit 2 [-1; 5] 2 = true.
+Theorem asis_defect_condition_bounded :
+  exact_check [-2147483648; -1; 0; 5; 2147483647] 3 = true.
+Proof. vm_cast_no_check (eq_refl true). Qed.
+
+(** ** Examples: concrete instances of the hypotheses of the theorems above *)
+Example ex_ops32 :
+  Forall (ops32 1) [OIns [-1; 7]; OIns [5; -2147483648]; OMem [5; 3]; OPrefix [-1]; OPrefix [5; 3];
+                    OPart 2; OIter; OSize].
+Proof. repeat constructor; cbn; unfold key32; try lia. Qed.
+
+Example ex_fixed_run :
+  run_model true UBexplicit 1 (trie_empty 1)
+    [OIns [-1; 7]; OIns [5; -2147483648]; OIns [-1; 7]; OIns [-1; 0]; OMem [5; 3]; OPrefix [-1]; OPart 2; OIter; OSize]
+  = [ABool true; ABool true; ABool false; ABool true; ABool false;
+     ATuples [[-1; 0]; [-1; 7]]; AChunks [[[5; -2147483648]]; [[-1; 0]; [-1; 7]]];
+     ATuples [[5; -2147483648]; [-1; 0]; [-1; 7]]; ANum 3].
+Proof. vm_compute. reflexivity. Qed.
+
+(** first column negative, second column non-negative ([sg 1 = true], [sg 0 = false]) *)
+Example ex_ops_signs :
+  Forall (ops_signs (fun dd => Nat.eqb dd 1) 1)
+         [OIns [-1; 7]; OIns [-2147483648; 0]; OMem [5; -3]; OPrefix [-1]; OPart 1; OIter].
+Proof. repeat constructor; cbn; unfold key32, sign_ok; try lia. Qed.
+
+Example ex_asis_run :
+  run_model false UBexplicit 1 (trie_empty 1)
+    [OIns [-1; 7]; OIns [-2147483648; 0]; OMem [5; -3]; OMem [-1; 7]; OPrefix [-1]; OPart 1; OIter]
+  = [ABool true; ABool true; ABool false; ABool true; ATuples [[-1; 7]];
+     AChunks [[[-2147483648; 0]]; [[-1; 7]]]; ATuples [[-2147483648; 0]; [-1; 7]]].
+Proof. vm_compute. reflexivity. Qed.
+
+Example ex_digits : (* 6 bits per level, 3 levels: digits 1, 2, 3 above a leaf cell 4 *)
+  let i := (((1 * 64 + 2) * 64 + 3) * 64 + 4)%N in
+  getIndex 6 i 3 = Some 1%N /\ getIndex 6 i 2 = Some 2%N /\ getIndex 6 i 1 = Some 3%N /\
+  getIndex 6 i 0 = Some 4%N /\ getIndex 6 i 11 = None /\ getIndex_x86 6 i 11 = getIndex_at 6 i 2.
 Proof. vm_compute. repeat split. Qed.
 
-Theorem prefix_range_bounded_asis_same_sign :
-  prefix_check false UBexplicit 0 [-2147483648; -65; -1] 3 = true /\
-  prefix_check false UBexplicit 1 [-65; -1] 3 = true /\
-  prefix_check false UBexplicit 1 [0; 64; 2147483647] 2 = true /\
-  prefix_check false UBexplicit 2 [0; 4096] 2 = true.
+(** the index arithmetic on the two keys of the defect: -1 is index 2^64-1; covering it together with
+    index 5 raises the root of a 6-bit array to level 10, where [getLevelMask(11)] is 0 *)
+Example ex_index_minus_one :
+  idx_of_key (-1) = (2 ^ 64 - 1)%N /\ idx_of_key 5 = 5%N /\ key_of_idx (2 ^ 64 - 1) = -1 /\
+  cast32 (2 ^ 64 - 2 ^ 36) = 0%N /\ getLevelMaskM UBexplicit 6 11 = Some 0%N /\
+  getLevelMaskM UBexplicit 6 10 = Some (2 ^ 64 - 2 ^ 60)%N.
 Proof. vm_compute. repeat split. Qed.
+
+(** ** Part N: statements for Properties_C27.v *)
+Theorem sa_update_get : forall (V : Type) fx m b D Q Lmax, sa_good fx m b D Q Lmax ->
+  forall (s : sa V) M i v, sa_rep b D Lmax s M -> D i ->
+  exists s', sa_update fx m b s i v = Some s' /\ sa_rep b D Lmax s' (cells_put i v M) /\
+             sa_get fx m b s' i = Some (Some v) /\
+             forall j, Q j -> j <> i -> sa_get fx m b s' j = sa_get fx m b s j.
+Proof.
+  intros V fx m b D Q Lmax G s M i v R Di.
+  destruct (rep_update fx m b D Q Lmax G s M i v R Di) as (s' & E & R').
+  exists s'. split; [exact E|]. split; [exact R'|]. split.
+  - rewrite (rep_get fx m b D Q Lmax G s' _ i R' Di), cells_get_put_same. reflexivity.
+  - intros j Qj Hj. rewrite (rep_get_any fx m b D Q Lmax G s' _ j R' Qj), (rep_get_any fx m b D Q Lmax G s M j R Qj).
+    rewrite cells_get_put_other by exact Hj. reflexivity.
+Qed.
+
+Theorem sa_iter_order : forall (V : Type) fx m b D Q Lmax, sa_good fx m b D Q Lmax ->
+  forall (s : sa V) M, sa_rep b D Lmax s M ->
+  sa_iter fx m b s = Some M /\ StronglySorted N.lt (map fst M).
+Proof.
+  intros V fx m b D Q Lmax G s M R. split; [exact (iter_spec fx m b D Q Lmax G s M R)|exact (rep_sorted _ _ _ _ _ R)].
+Qed.
+
+Theorem sa_good_fixed : forall m, sa_good true m 6 Q6 Q6 10 /\ sa_good true m 4 Q4 Q4 14.
+Proof. intro m. split; [apply sa_good_fixed6|apply sa_good_fixed4]. Qed.
+
+Theorem sa_good_asis_same_sign : forall m neg,
+  sa_good false m 6 (D6s neg) Q6 5 /\ sa_good false m 4 (D4s neg) Q4 6.
+Proof. intros m neg. split; [apply sa_good_asis6|apply sa_good_asis4]. Qed.
+
+(** the chunks of the set model's partition cover the set exactly once, in order *)
+Lemma groups_concat s : concat (groups_by_hd s) = s.
+Proof.
+  induction s as [|t r IH]; [reflexivity|]. cbn [groups_by_hd].
+  destruct (groups_by_hd r) as [|[|u g] gs] eqn:E.
+  - cbn in IH. subst r. reflexivity.
+  - pose proof (groups_nonempty r) as Hn. rewrite E in Hn. inversion Hn; congruence.
+  - destruct (Z.eqb (hd 0 t) (hd 0 u)); cbn [concat app] in *; rewrite <- IH; reflexivity.
+Qed.
+
+Lemma merge_cut_concat step gs : forall c cur, concat (merge_cut step c gs cur) = cur ++ concat gs.
+Proof.
+  induction gs as [|g r IH]; intros c cur; cbn [merge_cut concat].
+  - reflexivity.
+  - destruct ((c mod step =? 0)%N && negb (c =? 1)%N); cbn [concat]; rewrite IH; [reflexivity|].
+    rewrite app_assoc. reflexivity.
+Qed.
+
+Theorem partition_covers s n : concat (set_partition s n) = s.
+Proof.
+  unfold set_partition. pose proof (groups_concat s) as H. destruct (groups_by_hd s) as [|g gs]; [exact H|].
+  rewrite merge_cut_concat. exact H.
+Qed.
+
+Definition tuple_lt (a c : list Z) : Prop := tuple_ltb a c = true.
+
+(** the set model after a sequence of inserts: sorted, and exactly the union *)
+Lemma spec_inserts_iter d tups : Forall (tup32 d) tups -> forall s, Forall (tup32 d) s -> StronglySorted tuple_lt s ->
+  exists l, last (run_spec s (map OIns tups ++ [OIter])) AUndef = ATuples l /\ StronglySorted tuple_lt l /\
+            forall t, In t l <-> In t s \/ In t tups.
+Proof.
+  induction tups as [|t tups IH]; intros Ht s Hs HS.
+  - exists s. split; [reflexivity|]. split; [exact HS|]. intro x. cbn. tauto.
+  - inversion Ht as [|? ? Ht0 Ht']; subst. cbn [map app run_spec].
+    destruct (IH Ht' (set_insert t s)) as (l & El & Hl & Hin).
+    + apply Forall_forall. intros x Hx. apply set_insert_In in Hx. destruct Hx as [->|Hx]; [exact Ht0|].
+      rewrite Forall_forall in Hs. apply Hs, Hx.
+    + apply (set_insert_sorted d); assumption.
+    + exists l. split; [|split; [exact Hl|]].
+      * destruct (run_spec (set_insert t s) (map OIns tups ++ [OIter])) eqn:E; [|exact El].
+        destruct tups; discriminate.
+      * intro x. rewrite Hin, set_insert_In. cbn [In]. intuition.
+Qed.
+
+(** repaired header: after any sequence of inserts the iteration is strictly ascending and lists
+    exactly the tuples inserted *)
+Theorem fixed_union_sorted m d tups : Forall (tup32 d) tups ->
+  exists l, last (run_model true m d (trie_empty d) (map OIns tups ++ [OIter])) AUndef = ATuples l /\
+            StronglySorted tuple_lt l /\ forall t, In t l <-> In t tups.
+Proof.
+  intros Ht. rewrite (fixed_refines_set m d (map OIns tups ++ [OIter])).
+  - destruct (spec_inserts_iter d tups Ht [] ltac:(constructor) ltac:(constructor)) as (l & El & Hl & Hin).
+    exists l. split; [exact El|]. split; [exact Hl|]. intro t. rewrite Hin. cbn. tauto.
+  - apply Forall_app. split; [|repeat constructor]. apply Forall_forall. intros o Ho.
+    apply in_map_iff in Ho. destruct Ho as (t & <- & Hin). rewrite Forall_forall in Ht. apply Ht, Hin.
+Qed.
+
+Lemma tup_signs_32 sg d : forall tup, tup_signs sg d tup -> tup32 d tup.
+Proof.
+  induction d as [|d' IH]; intros [|k [|k' r]]; cbn [tup_signs tup32]; try tauto.
+  - intros (H1 & _ & H3). split; [exact H1|apply IH, H3].
+  - intros (H1 & _ & H3). split; [exact H1|apply IH, H3].
+Qed.
+
+(** unchanged header, one sign per column: the same *)
+Theorem asis_union_sorted m sg d tups : Forall (tup_signs sg d) tups ->
+  exists l, last (run_model false m d (trie_empty d) (map OIns tups ++ [OIter])) AUndef = ATuples l /\
+            StronglySorted tuple_lt l /\ forall t, In t l <-> In t tups.
+Proof.
+  intros Ht. rewrite (asis_refines_set m sg d (map OIns tups ++ [OIter])).
+  - assert (Ht32 : Forall (tup32 d) tups) by (eapply Forall_impl; [|exact Ht]; apply tup_signs_32).
+    destruct (spec_inserts_iter d tups Ht32 [] ltac:(constructor) ltac:(constructor)) as (l & El & Hl & Hin).
+    exists l. split; [exact El|]. split; [exact Hl|]. intro t. rewrite Hin. cbn. tauto.
+  - apply Forall_app. split; [|repeat constructor]. apply Forall_forall. intros o Ho.
+    apply in_map_iff in Ho. destruct Ho as (t & <- & Hin). rewrite Forall_forall in Ht. apply Ht, Hin.
+Qed.
+
+Example ex_union_sorted_hyp : Forall (tup32 1) [[-1; 7]; [5; -2147483648]; [-1; 7]]%Z.
+Proof. repeat constructor; cbn; unfold key32; lia. Qed.
+
+(* The repair (Brie.h, class SparseArray).
+
+   Mechanism of the defect. [getIndex] takes a [brie_element_type] (int32) and every call site
+   narrows its 64-bit argument: getIndex(brie_element_type(i), level). Narrowing an *index* is
+   harmless (indices are sign extended int32 keys: [cast32_id]), but [raiseLevel] passes the root
+   *offset*, i.e. an index with its low bits cleared ([offset &= getLevelMask(levels+1)]). As soon as
+   bit 31 is among the cleared bits (6 bits/level: from level 6 on; bitmap store with 4 bits/level:
+   from level 8 on) the narrowed offset of a negative key is 0, the digit computed for the old root
+   is 0 instead of 63 (resp. 15), and the old root is hung under cell 0 of the new root. Lookups
+   navigate with the digits of the (sign extended) index itself, 63/15 on those levels, and miss.
+   Raising beyond level 5 happens exactly when keys of both signs meet in one array; if the array's
+   offset is already 0 (non-negative key first) all computed digits are 0 = correct, hence the
+   dependence on the order. [sa_good_asis6]/[sa_good_asis4] are the proof that nothing goes wrong
+   below those levels, [trie_mixed_sign_refuted] the witness above.
+   The shift by 66 that UBSan reports (getIndex, level 11) is a second, independent problem of
+   arrays with both signs: it occurs when an iterator steps past a level-10 root
+   ([trie2_mixed_sign_shift_undefined]); its result is not used.
+
+   Patch (10 lines): make [getIndex] take the index type and guard the shift, and drop the eight
+   narrowing casts at its call sites:
+     -    static index_type getIndex(brie_element_type a, unsigned level) {
+     +    static index_type getIndex(index_type a, unsigned level) {
+     +        if (level * BIT_PER_STEP >= sizeof(index_type) * 8) return 0;
+              return (a & (INDEX_MASK << (level * BIT_PER_STEP))) >> (level * BIT_PER_STEP);
+     and  getIndex(brie_element_type(X), level)  ->  getIndex(X, level)
+     in SparseArrayIter::operator++ (2x), getLeaf, lookup, addAll, lowerBound, raiseLevel (2x).
+   Modelled by [fx = true]; [fixed_refines_set] is the refinement theorem without any hypothesis
+   on the keys. The order of iteration is unchanged (index order = unsigned order of the keys). *)
+
+(* NOT PROVED:
+   - Concurrency. C27 speaks of concurrent insertion histories; the model and all theorems are
+     sequential (one operation after the other, fresh op_context each). The lock-free protocol
+     (CAS on cells, optimistic root/first-node versions) is not modelled.
+   - op_context hints ([lastNode]/[lastNested]/[lastBoundaries] shortcuts) are not modelled.
+   - lower_bound / upper_bound, insertAll/addAll, clear, copy are not modelled. (lowerBound of a
+     SparseArray<.,6> wraps around at index 2^64-1: Trie<2> {(-100,1),(-10,1)}.lower_bound((-5,0))
+     returns an iterator showing (3996,1) on the real header, patched or not; not reachable from
+     synthesised code, which uses getBoundaries only.)
+   - The unchanged header with keys of both signs in the non-negative-first order (which behaves
+     correctly on x86, [trie_mixed_sign_other_order]) is outside [asis_refines_set]; only the
+     bounded statement [asis_defect_condition_bounded] covers it.
+   - Arities above 4 are covered by the theorems (any d) but not by the validation runs. *)
